@@ -237,64 +237,155 @@ Qed.
 Lemma local_logout_none st s : local_logout st s = None -> lookup s (db st) = None.
 Proof. unfold local_logout. destruct (lookup s (db st)); [discriminate|reflexivity]. Qed.
 
-(* entries appended by the loop: consecutive fresh ids, all carrying (ref, s, dl), addressed to members of l *)
-Definition fresh_entries (st : state) (s : subj) (ref : nat) (dl : option Z) (l : list issuer)
+(* entries appended by the loop: consecutive fresh ids, all carrying (ref, s, dl), addressed to members of l
+   that are asked over a front channel *)
+Definition fresh_entries (w : world) (st : state) (s : subj) (ref : nat) (dl : option Z) (l : list issuer)
            (news : list (rid * pentry)) : Prop :=
   forall r p, In (r, p) news ->
-    (next_rid st <= r)%nat /\ p_ref p = ref /\ p_subj p = s /\ p_expire p = dl /\ In (p_entity p) l.
+    (next_rid st <= r)%nat /\ p_ref p = ref /\ p_subj p = s /\ p_expire p = dl /\ In (p_entity p) l
+    /\ asked_by_soap w (p_entity p) = false.
 
-Definition loop_post (st st' : state) (s : subj) (ref : nat) (dl : option Z) (l : list issuer) : Prop :=
+Definition loop_post (w : world) (st st' : state) (s : subj) (ref : nat) (dl : option Z) (l : list issuer) : Prop :=
   db st' = db st /\ now st' = now st /\ heap st' = heap st /\ next_ref st' = next_ref st /\
   exists news, pend st' = pend st ++ news /\ (next_rid st <= next_rid st')%nat
-               /\ fresh_entries st s ref dl l news
+               /\ fresh_entries w st s ref dl l news
                /\ (forall r p, In (r, p) news -> (r < next_rid st')%nat)
                /\ NoDup (keys news).
 
-Lemma loop_post_refl st s ref dl l : loop_post st st s ref dl l.
+Lemma loop_post_refl w st s ref dl l : loop_post w st st s ref dl l.
 Proof.
   unfold loop_post. do 4 (split; [reflexivity|]). exists []. rewrite app_nil_r.
   split; [reflexivity|]. split; [lia|]. split; [intros r p []|]. split; [intros r p []|constructor].
 Qed.
 
-Lemma loop_post_weaken st st' s ref dl e l : loop_post st st' s ref dl l -> loop_post st st' s ref dl (e :: l).
+Lemma loop_post_weaken w st st' s ref dl e l : loop_post w st st' s ref dl l -> loop_post w st st' s ref dl (e :: l).
 Proof.
   intros (A & B & C & D & news & E & F & G & K & ND). unfold loop_post. do 4 (split; [assumption|]).
   exists news. do 2 (split; [assumption|]). split; [|split; [exact K|exact ND]].
-  intros r p Hr. destruct (G r p Hr) as (G1 & G2 & G3 & G4 & G5).
-  do 4 (split; [assumption|]). right; exact G5.
+  intros r p Hr. destruct (G r p Hr) as (G1 & G2 & G3 & G4 & G5 & G6).
+  do 4 (split; [assumption|]). split; [right; exact G5|exact G6].
 Qed.
 
-Lemma loop_post_add st st' s ref dl e l :
-  loop_post (add_pending st {| p_entity := e; p_ref := ref; p_subj := s; p_expire := dl |}) st' s ref dl l ->
-  loop_post st st' s ref dl (e :: l).
+Lemma loop_post_add w st st' s ref dl e l :
+  asked_by_soap w e = false ->
+  loop_post w (add_pending st {| p_entity := e; p_ref := ref; p_subj := s; p_expire := dl |}) st' s ref dl l ->
+  loop_post w st st' s ref dl (e :: l).
 Proof.
-  intros (A & B & C & D & news & E & F & G & K & ND). cbn in A, B, C, D, E, F. unfold loop_post.
+  intros Fr (A & B & C & D & news & E & F & G & K & ND). cbn in A, B, C, D, E, F. unfold loop_post.
   do 4 (split; [assumption|]).
   exists ((next_rid st, {| p_entity := e; p_ref := ref; p_subj := s; p_expire := dl |}) :: news).
   split; [rewrite E, <- app_assoc; reflexivity|]. split; [lia|]. split.
   - intros r p [Hr|Hr].
-    + injection Hr as <- <-. cbn. split; [lia|]. do 3 (split; [reflexivity|]). left; reflexivity.
-    + destruct (G r p Hr) as (G1 & G2 & G3 & G4 & G5). cbn in G1. split; [lia|].
-      do 3 (split; [assumption|]). right; exact G5.
+    + injection Hr as <- <-. cbn. split; [lia|]. do 3 (split; [reflexivity|]). split; [left; reflexivity|exact Fr].
+    + destruct (G r p Hr) as (G1 & G2 & G3 & G4 & G5 & G6). cbn in G1. split; [lia|].
+      do 3 (split; [assumption|]). split; [right; exact G5|exact G6].
   - split; [intros r p [Hr|Hr]; [injection Hr as <- <-; lia|exact (K r p Hr)]|].
     cbn. constructor; [|exact ND]. intros Hin. apply in_map_iff in Hin as [[r p] [Er Hin]]. cbn in Er. subst r.
     destruct (G _ p Hin) as (G1 & _). cbn in G1. lia.
 Qed.
 
+Lemma asked_front w e b : choose w e = Some b -> b <> SOAP -> asked_by_soap w e = false.
+Proof. unfold asked_by_soap. intros ->. destruct b; [congruence|reflexivity|reflexivity]. Qed.
+
 Lemma logout_loop_frame w ans s ref dl l : forall st nd acc st' res,
-  logout_loop w ans s ref dl l st nd acc = (st', res) -> loop_post st st' s ref dl l.
+  logout_loop w ans s ref dl l st nd acc = (st', res) -> loop_post w st st' s ref dl l.
 Proof.
   induction l as [|e l' IH]; intros st nd acc st' res H; cbn in H.
   - injection H as <- <-. apply loop_post_refl.
-  - assert (Base : forall x, (st, x) = (st', res) -> loop_post st st' s ref dl (e :: l')).
+  - assert (Base : forall x, (st, x) = (st', res) -> loop_post w st st' s ref dl (e :: l')).
     { intros x Hx. injection Hx as <- _. apply loop_post_refl. }
-    destruct (choose w e) as [b|]; [|apply (Base _ H)].
+    destruct (choose w e) as [b|] eqn:Ec; [|apply (Base _ H)].
     destruct (c_get (now st) (db st) s e false) eqn:Gt.
     all: try (apply (Base _ H)).
     all: destruct b.
     all: try (destruct (answer ans e); [apply loop_post_weaken, (IH _ _ _ _ _ H)|apply (Base _ H)
                                        |apply loop_post_weaken, (IH _ _ _ _ _ H)|apply loop_post_weaken, (IH _ _ _ _ _ H)]).
-    all: apply loop_post_add, (IH _ _ _ _ _ H).
+    all: apply loop_post_add; [apply (asked_front _ _ _ Ec); discriminate|apply (IH _ _ _ _ _ H)].
+Qed.
+
+(* a pass that does not raise: who has answered synchronously, and that nobody asked over SOAP is left without answer *)
+Definition lagging (w : world) (ans : list soap_answer) (e : issuer) : bool :=
+  asked_by_soap w e && negb (soap_ok w ans e).
+
+Lemma soap_answered_app a b : soap_answered (a ++ b) = soap_answered a ++ soap_answered b.
+Proof. unfold soap_answered. apply flat_map_app. Qed.
+
+Lemma soap_ok_front w ans e : asked_by_soap w e = false -> soap_ok w ans e = false.
+Proof. unfold soap_ok. intros ->. reflexivity. Qed.
+
+Lemma In_remove_first0 a i l : a <> i -> In a l -> In a (remove_first i l).
+Proof.
+  intros N. induction l as [|x r IH]; cbn; [contradiction|]. destruct (x =? i)%nat eqn:E.
+  - apply Nat.eqb_eq in E. intros [H|H]; [congruence|exact H].
+  - intros [H|H]; [left; exact H|right; apply IH; exact H].
+Qed.
+
+Lemma logout_loop_ok w ans s ref dl l : forall st nd acc st' nd' acc',
+  logout_loop w ans s ref dl l st nd acc = (st', inr (nd', acc')) ->
+  soap_answered acc' = soap_answered acc ++ filter (soap_ok w ans) l
+  /\ forall e, lagging w ans e = true -> In e nd -> In e nd'.
+Proof.
+  induction l as [|e l' IH]; intros st nd acc st' nd' acc' H; cbn in H.
+  - injection H as <- <- <-. cbn. rewrite app_nil_r. split; [reflexivity|auto].
+  - destruct (choose w e) as [b|] eqn:Ec; [|discriminate].
+    destruct (c_get (now st) (db st) s e false) eqn:Gt; try discriminate.
+    all: destruct b.
+    all: try (assert (Fr : asked_by_soap w e = false) by (apply (asked_front _ _ _ Ec); discriminate);
+              apply IH in H as [H1 H2]; rewrite soap_answered_app in H1; cbn in H1; rewrite app_nil_r in H1;
+              cbn [filter]; rewrite (soap_ok_front w ans e Fr); split; [exact H1|];
+              intros x Lx Hx; apply H2; [exact Lx|]; apply In_remove_first0; [|exact Hx];
+              intros ->; unfold lagging in Lx; rewrite Fr in Lx; discriminate).
+    all: assert (So : asked_by_soap w e = true) by (unfold asked_by_soap; rewrite Ec; reflexivity).
+    all: destruct (answer ans e) eqn:Ea; try discriminate.
+    all: try (assert (Se : soap_ok w ans e = false) by (unfold soap_ok; rewrite So, Ea; reflexivity);
+              apply IH in H as [H1 H2]; cbn [filter]; rewrite Se; split; [exact H1|exact H2]).
+    all: assert (Se : soap_ok w ans e = true) by (unfold soap_ok; rewrite So, Ea; reflexivity).
+    all: apply IH in H as [H1 H2]; rewrite soap_answered_app in H1; cbn in H1; cbn [filter]; rewrite Se.
+    all: split; [rewrite H1, <- app_assoc; reflexivity|].
+    all: intros x Lx Hx; apply H2; [exact Lx|]; apply In_remove_first0; [|exact Hx].
+    all: intros ->; unfold lagging in Lx; rewrite Se in Lx; rewrite andb_false_r in Lx; discriminate.
+Qed.
+
+Lemma remove_all_cons_notin es : forall x r, ~ In x es -> remove_all es (x :: r) = x :: remove_all es r.
+Proof.
+  unfold remove_all. induction es as [|e es IH]; intros x r N; cbn; [reflexivity|].
+  destruct (x =? e)%nat eqn:E; [apply Nat.eqb_eq in E; subst; exfalso; apply N; left; reflexivity|].
+  apply IH. intros H; apply N; right; exact H.
+Qed.
+
+Lemma remove_all_filter (f : issuer -> bool) l :
+  NoDup l -> remove_all (filter f l) l = filter (fun e => negb (f e)) l.
+Proof.
+  induction l as [|x r IH]; intros N; [reflexivity|]. inversion N as [|? ? Nx Nr]; subst. cbn [filter].
+  destruct (f x) eqn:F; cbn [negb].
+  - unfold remove_all. cbn. rewrite Nat.eqb_refl. apply IH; exact Nr.
+  - rewrite remove_all_cons_notin; [rewrite IH by exact Nr; reflexivity|].
+    intros H. apply filter_In in H as [H _]. exact (Nx H).
+Qed.
+
+Lemma finish_pass_cases s ref acc st st' ou :
+  finish_pass s ref acc st = (st', ou) ->
+  let l' := remove_all (soap_answered acc) (heap st ref) in
+  now st' = now st /\ next_rid st' = next_rid st /\ next_ref st' = next_ref st /\
+  (forall n', heap st' n' = if (n' =? ref)%nat then l' else heap st n') /\
+  ( ((soap_answered acc = [] \/ l' <> []) /\ db st' = db st /\ pend st' = pend st /\ ou = OSent acc)
+    \/ (l' = [] /\ lookup s (db st) <> None /\ db st' = remove s (db st) /\ pend st' = purge s (pend st) /\ ou = OSent acc)
+    \/ (l' = [] /\ lookup s (db st) = None /\ db st' = db st /\ pend st' = pend st /\ ou = OExn KeyErr)).
+Proof.
+  unfold finish_pass. destruct (soap_answered acc) as [|a0 an] eqn:Ea.
+  - intros H; injection H as <- <-. cbn. do 3 (split; [reflexivity|]). split.
+    + intros n'. destruct (n' =? ref)%nat eqn:E; [apply Nat.eqb_eq in E; subst; reflexivity|reflexivity].
+    + left. split; [left; reflexivity|]. repeat split.
+  - cbn [set_heap heap]. rewrite Nat.eqb_refl. set (l' := remove_all (a0 :: an) (heap st ref)).
+    destruct l' as [|y l2] eqn:El.
+    + destruct (local_logout _ s) as [st3|] eqn:L.
+      * intros H; injection H as <- <-. apply local_logout_some in L as (A1 & A2 & A3 & A4 & A5 & A6 & A7).
+        cbn in A1, A2, A3, A4, A5, A6, A7. do 3 (split; [assumption|]). split; [intros n'; rewrite A5; reflexivity|].
+        right; left. repeat split; assumption.
+      * intros H; injection H as <- <-. apply local_logout_none in L. cbn in L. cbn. do 3 (split; [reflexivity|]).
+        split; [reflexivity|]. right; right. repeat split; assumption.
+    + intros H; injection H as <- <-. cbn. do 3 (split; [reflexivity|]). split; [reflexivity|].
+      left. split; [right; discriminate|]. repeat split.
 Qed.
 
 Lemma do_logout_cases w ans s ref dl st st' ou :
@@ -302,7 +393,8 @@ Lemma do_logout_cases w ans s ref dl st st' ou :
   (deadline_passed (now st) dl = true /\
      ((lookup s (db st) = None /\ st' = st /\ ou = OExn KeyErr) \/
       (local_logout st s = Some st' /\ ou = OTimeout)))
-  \/ (deadline_passed (now st) dl = false /\ loop_post st st' s ref dl (heap st ref)
+  \/ (deadline_passed (now st) dl = false /\ now st' = now st
+      /\ (db st' = db st \/ (lookup s (db st) <> None /\ db st' = remove s (db st)))
       /\ ou <> OTimeout /\ ou <> ODone).
 Proof.
   unfold do_logout. destruct (deadline_passed (now st) dl) eqn:D.
@@ -311,8 +403,48 @@ Proof.
     + injection H as <- <-. left. split; [apply local_logout_none; exact L|split; reflexivity].
   - intros H. right. split; [reflexivity|].
     destruct (logout_loop w ans s ref dl (heap st ref) st (heap st ref) []) as [st2 res] eqn:L.
-    apply logout_loop_frame in L.
-    destruct res as [e|[[|x nd] acc]]; injection H as <- <-; (split; [exact L|split; discriminate]).
+    apply logout_loop_frame in L. destruct L as (A & B & _).
+    destruct res as [e|[[|x nd] acc]].
+    + injection H as <- <-. split; [exact B|]. split; [left; exact A|split; discriminate].
+    + apply finish_pass_cases in H as (F1 & _ & _ & _ & [(_ & F2 & _ & ->)|[(_ & F2 & F3 & _ & ->)|(_ & _ & F2 & _ & ->)]]).
+      * split; [congruence|]. split; [left; congruence|split; discriminate].
+      * split; [congruence|]. split; [right; rewrite <- A; split; assumption|split; discriminate].
+      * split; [congruence|]. split; [left; congruence|split; discriminate].
+    + injection H as <- <-. split; [exact B|]. split; [left; exact A|split; discriminate].
+Qed.
+
+(* the pass in detail, for a list object without duplicates *)
+Lemma do_logout_pass w ans s ref dl st st' ou :
+  do_logout w ans s ref dl st = (st', ou) -> deadline_passed (now st) dl = false -> NoDup (heap st ref) ->
+  exists st1, loop_post w st st1 s ref dl (heap st ref) /\
+    ( (st' = st1 /\ is_exn ou = true)
+      \/ (let l' := filter (fun e => negb (soap_ok w ans e)) (heap st ref) in
+          now st' = now st /\ next_rid st' = next_rid st1 /\ next_ref st' = next_ref st /\
+          (forall n', heap st' n' = if (n' =? ref)%nat then l' else heap st n') /\
+          ( ((existsb (soap_ok w ans) (heap st ref) = false \/ l' <> []) /\ db st' = db st /\ pend st' = pend st1 /\ is_exn ou = false)
+            \/ (l' = [] /\ lookup s (db st) <> None /\ db st' = remove s (db st) /\ pend st' = purge s (pend st1) /\ is_exn ou = false)
+            \/ (l' = [] /\ lookup s (db st) = None)))).
+Proof.
+  unfold do_logout. intros H D N. rewrite D in H.
+  destruct (logout_loop w ans s ref dl (heap st ref) st (heap st ref) []) as [st1 res] eqn:L.
+  pose proof (logout_loop_frame _ _ _ _ _ _ _ _ _ _ _ L) as P. exists st1. split; [exact P|].
+  destruct P as (A & B & C & D' & _).
+  destruct res as [e|[[|x nd] acc]].
+  - injection H as <- <-. left. split; reflexivity.
+  - right. apply logout_loop_ok in L as [L1 _]. cbn [soap_answered flat_map app] in L1.
+    apply finish_pass_cases in H as (F1 & F2 & F3 & F4 & F5). cbv zeta in F4, F5.
+    rewrite L1, C, (remove_all_filter _ _ N) in F4, F5. cbv zeta.
+    split; [congruence|]. split; [exact F2|]. split; [congruence|]. split; [exact F4|].
+    destruct F5 as [([Fa|Fa] & Fb & Fc & ->)|[(Fa & Fb & Fc & Fd & ->)|(Fa & Fb & _)]].
+    + left. split; [left|repeat split; congruence].
+      destruct (existsb (soap_ok w ans) (heap st ref)) eqn:Ex; [|reflexivity].
+      apply existsb_exists in Ex as [y [Hy Sy]].
+      assert (In y (filter (soap_ok w ans) (heap st ref))) by (apply filter_In; split; assumption).
+      rewrite Fa in H. destruct H.
+    + left. split; [right; exact Fa|repeat split; congruence].
+    + right; left. rewrite A in Fb, Fc. repeat split; assumption.
+    + right; right. rewrite A in Fb. split; assumption.
+  - injection H as <- <-. left. split; reflexivity.
 Qed.
 
 (* ================================================================ the cache invariant *)
@@ -340,10 +472,11 @@ Inductive db_change (c c' : cache) : Prop :=
 Lemma do_logout_db w ans s ref dl st st' ou :
   do_logout w ans s ref dl st = (st', ou) -> db_change (db st) (db st') /\ now st' = now st.
 Proof.
-  intros H. apply do_logout_cases in H as [[_ [(A & -> & _)|(A & _)]]|(_ & (A & B & _) & _)].
+  intros H. apply do_logout_cases in H as [[_ [(A & -> & _)|(A & _)]]|(_ & B & [A|[A1 A2]] & _)].
   - split; [apply dbc_same|]; reflexivity.
   - apply local_logout_some in A as (A1 & A2 & A3 & _). split; [eapply dbc_remove; eassumption|exact A3].
   - split; [apply dbc_same; exact A|exact B].
+  - split; [eapply dbc_remove; eassumption|exact B].
 Qed.
 
 Lemma global_logout_db w ans s dl st st' ou :
@@ -521,7 +654,7 @@ Proof.
   intros L. apply local_logout_some in L as (_ & A & _). apply present_view_false. rewrite A. apply lookup_remove_eq.
 Qed.
 
-Lemma loop_post_present st st' s ref dl l x : loop_post st st' s ref dl l -> present (view_of st') x = present (view_of st) x.
+Lemma loop_post_present w st st' s ref dl l x : loop_post w st st' s ref dl l -> present (view_of st') x = present (view_of st) x.
 Proof.
   intros (A & _). unfold present. rewrite !subjects_keys, A. reflexivity.
 Qed.
@@ -532,7 +665,7 @@ Proof.
   intros H s C. destruct o; cbn in C; try discriminate; cbn in H.
   - (* StartLogout *) destruct ou; try discriminate. injection C as <-.
     unfold global_logout in H. destruct (lookup s0 (db st)) as [l|]; [|discriminate].
-    apply do_logout_cases in H as [[_ [(_ & _ & X)|(L & _)]]|(_ & _ & X & _)]; try discriminate; try congruence.
+    apply do_logout_cases in H as [[_ [(_ & _ & X)|(L & _)]]|(_ & _ & _ & X & _)]; try discriminate; try congruence.
     eapply removed_absent; exact L.
   - (* LogoutResponse *)
     assert (C' : option_map pv_subj (lookup r (v_pending (view_of st))) = Some s /\ (ou = ODone \/ ou = OTimeout)).
@@ -548,7 +681,7 @@ Proof.
       * eapply removed_absent; exact L.
       * destruct Hou; discriminate.
     + destruct (mem i (heap st (p_ref p))).
-      * apply do_logout_cases in H as [[_ [(_ & _ & X)|(L & _)]]|(_ & _ & X & Y)].
+      * apply do_logout_cases in H as [[_ [(_ & _ & X)|(L & _)]]|(_ & _ & _ & X & Y)].
         -- subst ou. destruct Hou; discriminate.
         -- eapply removed_absent; exact L.
         -- destruct Hou; congruence.
@@ -676,20 +809,29 @@ Proof.
   - rewrite IH by exact Nr. reflexivity.
 Qed.
 
-Definition no_soap (w : world) (l : list issuer) : Prop := forall j, In j l -> asked_by_soap w j = false.
-
-Lemma soap_ok_no w ans j : asked_by_soap w j = false -> soap_ok w ans j = false.
-Proof. unfold soap_ok. intros ->. reflexivity. Qed.
-
-Lemma wait_answer_no_soap w ans i l : no_soap w l -> wait_answer w ans i l = wait_minus i l.
+Lemma filter_andb {A} (p q : A -> bool) l : filter (fun x => p x && q x) l = filter q (filter p l).
 Proof.
-  intros N. unfold wait_answer, wait_minus. apply filter_ext_in. intros j Hj.
-  rewrite (soap_ok_no w ans j (N j Hj)). cbn. apply andb_true_r.
+  induction l as [|x r IH]; cbn; [reflexivity|]. destruct (p x); cbn; [destruct (q x); rewrite IH; reflexivity|exact IH].
 Qed.
 
-Lemma wait_start_no_soap w ans l : no_soap w l -> wait_start w ans l = l.
+Lemma wait_answer_filter w ans i l :
+  NoDup l -> wait_answer w ans i l = filter (fun e => negb (soap_ok w ans e)) (remove_first i l).
 Proof.
-  intros N. unfold wait_start. apply filter_all. intros j Hj. rewrite (soap_ok_no w ans j (N j Hj)). reflexivity.
+  intros N. unfold wait_answer. rewrite (filter_andb (fun j => negb (j =? i)%nat) (fun j => negb (soap_ok w ans j))).
+  fold (wait_minus i l). rewrite (wait_minus_remove_first i l N). reflexivity.
+Qed.
+
+Lemma filter_not_soap_all w ans l :
+  existsb (soap_ok w ans) l = false -> filter (fun e => negb (soap_ok w ans e)) l = l.
+Proof.
+  intros H. apply filter_all. intros x Hx. destruct (soap_ok w ans x) eqn:E; [|reflexivity].
+  assert (existsb (soap_ok w ans) l = true) by (apply existsb_exists; exists x; split; assumption). congruence.
+Qed.
+
+Lemma NoDup_filter {A} (f : A -> bool) l : NoDup l -> NoDup (filter f l).
+Proof.
+  induction l as [|x r IH]; cbn; intros N; [constructor|]. inversion N as [|? ? Nx Nr]; subst.
+  destruct (f x); [constructor; [intros H; apply filter_In in H as [H _]; exact (Nx H)|apply IH; exact Nr]|apply IH; exact Nr].
 Qed.
 
 Lemma remove_first_nil i l : In i l -> remove_first i l = [] -> l = [i].
@@ -768,10 +910,10 @@ Record LInv (w : world) (st : state) (g : ghost) : Prop := {
   L_ntxn : g_ntxn g = next_ref st;
   L_txn : forall n T, g_txn g n = Some T ->
             (n < next_ref st)%nat /\ heap st n = t_wait T /\ lookup (t_subj T) (db st) <> None
-            /\ NoDup (t_wait T) /\ no_soap w (t_wait T);
+            /\ NoDup (t_wait T);
   L_own : forall r n a T, g_owner g r = Some (n, a) -> g_txn g n = Some T ->
             lookup r (pend st) = Some {| p_entity := a; p_ref := n; p_subj := t_subj T; p_expire := t_deadline T |}
-            /\ In a (t_wait T);
+            /\ In a (t_wait T) /\ asked_by_soap w a = false;
   L_own_lt : forall r n a, g_owner g r = Some (n, a) -> (n < g_ntxn g)%nat;
   L_rid : forall r p, lookup r (pend st) = Some p -> (r < next_rid st)%nat;
   L_db : db_wf (db st);
@@ -821,8 +963,8 @@ Proof.
   intros I En Hp1 Hp2 ND Eh Er Ef W. destruct I as [I1 I2 I3 I4 I5 I6 I7 I8 I9]. constructor; cbn.
   - exact En.
   - congruence.
-  - intros n T H. apply close_txn_some in H as [H P]. destruct (I3 n T H) as (A & B & C & D & E).
-    split; [congruence|]. split; [congruence|]. split; [apply present_view; exact P|]. split; assumption.
+  - intros n T H. apply close_txn_some in H as [H P]. destruct (I3 n T H) as (A & B & C & D).
+    split; [congruence|]. split; [congruence|]. split; [apply present_view; exact P|exact D].
   - intros r n a T Ho H. apply close_txn_some in H as [H P]. destruct (I4 r n a T Ho H) as [L Hin]. split; [|exact Hin].
     apply Hp2; [exact L|]. cbn. apply present_view; exact P.
   - exact I5.
@@ -951,13 +1093,13 @@ Lemma LInv_step_gen w st st' g nw kn n vT ows mts ntx :
   NoDup (keys (pend st')) ->
   (forall n', n' <> n -> (n' < next_ref st)%nat -> heap st' n' = heap st n') ->
   (forall T, vT = Some T ->
-     (n < next_ref st')%nat /\ heap st' n = t_wait T /\ NoDup (t_wait T) /\ no_soap w (t_wait T)) ->
+     (n < next_ref st')%nat /\ heap st' n = t_wait T /\ NoDup (t_wait T)) ->
   (forall r n0 a, ows r = Some (n0, a) -> (n0 < ntx)%nat) ->
   (forall r n0 a T0, ows r = Some (n0, a) -> n0 <> n -> g_txn g n0 = Some T0 -> lookup (t_subj T0) (db st') <> None ->
      g_owner g r = Some (n0, a) /\ lookup r (pend st') = lookup r (pend st)) ->
   (forall r a T, ows r = Some (n, a) -> vT = Some T ->
      lookup r (pend st') = Some {| p_entity := a; p_ref := n; p_subj := t_subj T; p_expire := t_deadline T |}
-     /\ In a (t_wait T)) ->
+     /\ In a (t_wait T) /\ asked_by_soap w a = false) ->
   (forall r p, lookup r (pend st') = Some p ->
      exists T, txn_set (g_txn g) n vT (p_ref p) = Some T /\ t_subj T = p_subj p /\ lookup (p_subj p) (db st') <> None /\
        (ows r = Some (p_ref p, p_entity p) \/ (ows r = None /\ mts r = Some (p_ref p, p_entity p)))) ->
@@ -969,10 +1111,10 @@ Proof.
   - exact Ef.
   - intros n' T H. apply close_txn_some in H as [H P]. unfold txn_set in H.
     destruct (n' =? n)%nat eqn:E.
-    + apply Nat.eqb_eq in E; subst n'. destruct (HT T H) as (A & B & C & D).
-      split; [exact A|]. split; [exact B|]. split; [apply present_view; exact P|]. split; assumption.
-    + apply Nat.eqb_neq in E. destruct (I3 n' T H) as (A & B & C & D & F).
-      split; [lia|]. split; [rewrite Hh by assumption; exact B|]. split; [apply present_view; exact P|]. split; assumption.
+    + apply Nat.eqb_eq in E; subst n'. destruct (HT T H) as (A & B & C).
+      split; [exact A|]. split; [exact B|]. split; [apply present_view; exact P|exact C].
+    + apply Nat.eqb_neq in E. destruct (I3 n' T H) as (A & B & C & D).
+      split; [lia|]. split; [rewrite Hh by assumption; exact B|]. split; [apply present_view; exact P|exact D].
   - intros r n0 a T Ho H. apply close_txn_some in H as [H P]. unfold txn_set in H.
     destruct (n0 =? n)%nat eqn:E.
     + apply Nat.eqb_eq in E; subst n0. exact (Hnew r a T Ho H).
@@ -1021,17 +1163,38 @@ Proof.
   - apply IH; [exact Nr|exact Nb|]. intros k' H. apply D. right; exact H.
 Qed.
 
-Lemma open_trigger_zero w g vb o : open_trigger w g vb o = 0%nat -> trigger w g vb o <> 1%nat /\ trigger w g vb o <> 4%nat.
+Lemma open_trigger_zero w g vb o ou :
+  open_trigger w g vb o ou = 0%nat -> trigger w g vb o ou <> 4%nat /\ trigger w g vb o ou <> 5%nat.
 Proof.
   unfold open_trigger, open_class. intros H. split; intros E; rewrite E in H; cbn in H; discriminate.
 Qed.
 
-Lemma trigger_start_no_soap w g st s dl ans l :
-  open_trigger w g (view_of st) (StartLogout s dl ans) = 0%nat -> lookup s (db st) = Some l -> no_soap w (keys l).
+Lemma soap_sub w ans l : existsb (asked_by_soap w) l = false -> existsb (soap_ok w ans) l = false.
 Proof.
-  intros H Ls. apply open_trigger_zero in H as [H _]. unfold trigger in H. rewrite issuers_view, Ls in H.
-  assert (P : present (view_of st) s = true) by (apply present_view; congruence). rewrite P in H. cbn [andb] in H.
-  destruct (existsb (asked_by_soap w) (keys l)) eqn:E; [congruence|]. exact (existsb_false_all _ _ E).
+  intros H. destruct (existsb (soap_ok w ans) l) eqn:E; [|reflexivity].
+  apply existsb_exists in E as [x [Hx Sx]]. unfold soap_ok in Sx. apply andb_true_iff in Sx as [Sx _].
+  assert (existsb (asked_by_soap w) l = true) by (apply existsb_exists; exists x; split; assumption). congruence.
+Qed.
+
+(* no class-5 trigger: a pass that raises contains nobody who answers Success over SOAP *)
+Lemma trigger_start_exn w g st s dl ans l ou :
+  open_trigger w g (view_of st) (StartLogout s dl ans) ou = 0%nat -> lookup s (db st) = Some l ->
+  deadline_passed (g_now g) dl = false -> is_exn ou = true -> existsb (soap_ok w ans) (keys l) = false.
+Proof.
+  intros H Ls D Ex. apply open_trigger_zero in H as [_ H]. unfold trigger in H. rewrite issuers_view, Ls in H.
+  assert (P : present (view_of st) s = true) by (apply present_view; congruence). rewrite P, D, Ex in H. cbn [andb negb] in H.
+  destruct (existsb (asked_by_soap w) (keys l)) eqn:E; [|apply soap_sub; exact E].
+  destruct (existsb (soap_ok w ans) (keys l)); [cbn in H; congruence|reflexivity].
+Qed.
+
+Lemma trigger_response_exn w g vb r i ans ou n T :
+  open_trigger w g vb (LogoutResponse r i true ans) ou = 0%nat -> g_owner g r = Some (n, i) -> g_txn g n = Some T ->
+  deadline_passed (g_now g) (t_deadline T) = false -> is_exn ou = true ->
+  existsb (soap_ok w ans) (wait_minus i (t_wait T)) = false.
+Proof.
+  intros H Ho Ht D Ex. apply open_trigger_zero in H as [_ H]. unfold trigger in H.
+  rewrite Ho, Ht, Nat.eqb_refl, D, Ex in H. cbn [negb andb] in H.
+  destruct (existsb (soap_ok w ans) (wait_minus i (t_wait T))); [cbn in H; congruence|reflexivity].
 Qed.
 
 Lemma new_pending_same st st' : pend st' = pend st -> new_pending (view_of st) (view_of st') = [].
@@ -1039,24 +1202,150 @@ Proof.
   intros E. rewrite (new_pending_app st st' (pend st) []); [reflexivity|rewrite app_nil_r; exact E|auto|intros r p []].
 Qed.
 
-Lemma new_pending_purged st st' s : pend st' = purge s (pend st) -> new_pending (view_of st) (view_of st') = [].
+Lemma new_pending_sub st st' :
+  (forall r, In r (keys (pend st')) -> In r (keys (pend st))) -> new_pending (view_of st) (view_of st') = [].
 Proof.
-  intros E. rewrite (new_pending_app st st' (purge s (pend st)) []); [reflexivity|rewrite app_nil_r; exact E| |intros r p []].
-  intros r. apply keys_filter_subset.
+  intros H. rewrite (new_pending_app st st' (pend st') []); [reflexivity|rewrite app_nil_r; reflexivity|exact H|intros r p []].
+Qed.
+
+Lemma keys_sub_of_lookup {V} (a b : list (nat * V)) :
+  (forall r p, lookup r a = Some p -> exists q, lookup r b = Some q) -> forall r, In r (keys a) -> In r (keys b).
+Proof.
+  intros H r Hr. apply lookup_In_keys in Hr. destruct (lookup r a) as [p|] eqn:E; [|congruence].
+  destruct (H r p E) as [q Hq]. apply lookup_In_keys. congruence.
 Qed.
 
 Lemma is_nil_false {A} (l : list A) : l <> [] -> is_nil l = false.
 Proof. destruct l; [congruence|reflexivity]. Qed.
 
 Lemma fresh_not_old w st g news s ref dl l :
-  LInv w st g -> fresh_entries st s ref dl l news -> forall r p, In (r, p) news -> ~ In r (keys (pend st)).
+  LInv w st g -> fresh_entries w st s ref dl l news -> forall r p, In (r, p) news -> ~ In r (keys (pend st)).
 Proof.
   intros I F r p Hr Hin. apply lookup_In_keys in Hin. destruct (lookup r (pend st)) as [p0|] eqn:Lr; [|congruence].
   pose proof (L_rid _ _ _ I r p0 Lr). destruct (F r p Hr) as (B1 & _). lia.
 Qed.
 
+Lemma fresh_entries_filter w ans st s ref dl l news :
+  fresh_entries w st s ref dl l news -> fresh_entries w st s ref dl (filter (fun e => negb (soap_ok w ans e)) l) news.
+Proof.
+  intros F r p Hr. destruct (F r p Hr) as (B1 & B2 & B3 & B4 & B5 & B6). do 4 (split; [assumption|]). split; [|exact B6].
+  apply filter_In. split; [exact B5|]. rewrite (soap_ok_front w ans _ B6). reflexivity.
+Qed.
+
+(* purge after the pass: the entries just written belong to the subject and go with it *)
+Lemma lookup_purge_app s old news r p :
+  NoDup (keys (old ++ news)) -> (forall r' q, In (r', q) news -> p_subj q = s) ->
+  (lookup r (purge s (old ++ news)) = Some p <-> lookup r old = Some p /\ p_subj p <> s).
+Proof.
+  intros N Hs. rewrite (lookup_purge s r p _ N), lookup_app. destruct (lookup r old) as [q|] eqn:E.
+  - tauto.
+  - split; [|intros [H _]; discriminate]. intros [H Ns]. apply lookup_In in H. exfalso. apply Ns. exact (Hs r p H).
+Qed.
+
+Lemma Old_pend w st g :
+  LInv w st g -> forall r p, lookup r (pend st) = Some p ->
+    exists T, g_txn g (p_ref p) = Some T /\ t_subj T = p_subj p /\ lookup (p_subj p) (db st) <> None
+              /\ (p_ref p < next_ref st)%nat
+              /\ (g_owner g r = Some (p_ref p, p_entity p)
+                  \/ (g_owner g r = None /\ g_moot g r = Some (p_ref p, p_entity p))).
+Proof.
+  intros I r p Hr. destruct (L_pend _ _ _ I r p Hr) as (T & HT & Hs & Ho). exists T.
+  destruct (L_txn _ _ _ I _ T HT) as (A & _ & C & _). rewrite Hs in C. auto.
+Qed.
+
+(* a global logout is started and the session stays: transaction n = next_ref st waits for `wait` *)
+Lemma LInv_start_stay w st st' g s dl wait tsoap news nw kn :
+  LInv w st g -> lookup s (db st) <> None ->
+  db st' = db st -> nw = now st' -> pend st' = pend st ++ news ->
+  (next_rid st <= next_rid st')%nat -> next_ref st' = S (next_ref st) ->
+  fresh_entries w st s (next_ref st) dl wait news ->
+  (forall r p, In (r, p) news -> (r < next_rid st')%nat) -> NoDup (keys news) ->
+  (forall n', n' <> next_ref st -> heap st' n' = heap st n') -> heap st' (next_ref st) = wait -> NoDup wait ->
+  LInv w st' {| g_now := nw; g_know := kn;
+                g_txn := close_txn (view_of st') (txn_set (g_txn g) (next_ref st)
+                           (Some {| t_subj := s; t_wait := wait; t_deadline := dl; t_soap := tsoap |}));
+                g_owner := owner_add (g_owner g) (next_ref st) (map (fun rp => (fst rp, pv_of st' (snd rp))) news);
+                g_moot := g_moot g; g_ntxn := S (next_ref st) |}.
+Proof.
+  intros I Ps A1 En A5 A6 Ef A7' A8 A9 Hh Hn1 NDw.
+  pose proof (L_ntxn _ _ _ I) as Entx. pose proof (L_nodup _ _ _ I) as NDp.
+  pose proof (fresh_not_old _ _ _ _ _ _ _ _ I A7') as Fresh.
+  apply (LInv_step_gen w st).
+  - exact I.
+  - exact En.
+  - congruence.
+  - lia.
+  - rewrite A1. apply (L_db _ _ _ I).
+  - intros r p Hr. rewrite A5, lookup_app in Hr. destruct (lookup r (pend st)) as [p0|] eqn:Lr.
+    + pose proof (L_rid _ _ _ I r p0 Lr). lia.
+    + apply lookup_In in Hr. exact (A8 r p Hr).
+  - rewrite A5. apply NoDup_keys_app; [exact NDp|exact A9|].
+    intros k Hk Hk'. apply In_keys_ex in Hk' as [p Hp]. exact (Fresh k p Hp Hk).
+  - intros n' Hn _. apply Hh; exact Hn.
+  - intros T X. injection X as <-. cbn. split; [lia|]. split; [exact Hn1|exact NDw].
+  - intros r n0 a Ho. apply owner_add_cases in Ho as [(pv & _ & X)|(_ & Ho)]; [injection X as -> _; lia|].
+    pose proof (L_own_lt _ _ _ I r n0 a Ho). lia.
+  - intros r n0 a T0 Ho Hn HT _. apply owner_add_cases in Ho as [(pv & _ & X)|(_ & Ho)]; [injection X as -> _; congruence|].
+    split; [exact Ho|]. destruct (L_own _ _ _ I r n0 a T0 Ho HT) as [Lr _]. rewrite A5. rewrite (lookup_app_old _ _ _ _ Lr), Lr. reflexivity.
+  - intros r a T Ho X. injection X as <-. cbn [t_subj t_deadline t_wait].
+    apply owner_add_cases in Ho as [(pv & Hl & X)|(_ & Ho)].
+    + injection X as ->. rewrite (lookup_map_snd (pv_of st')) in Hl.
+      destruct (lookup r news) as [p|] eqn:Ln; [|discriminate]. cbn in Hl. injection Hl as <-. cbn [pv_of pv_entity].
+      apply lookup_In in Ln as Hin. destruct (A7' r p Hin) as (B1 & B2 & B3 & B4 & B5 & B6).
+      assert (Lr : lookup r (pend st) = None) by (apply lookup_None_keys; exact (Fresh r p Hin)).
+      rewrite A5, (lookup_app_new _ _ _ Lr), Ln. split; [|split; [exact B5|exact B6]].
+      rewrite (pentry_eta p) at 1. rewrite B2, B3, B4. reflexivity.
+    + pose proof (L_own_lt _ _ _ I r _ a Ho). lia.
+  - intros r p Hr. rewrite A5, lookup_app in Hr. destruct (lookup r (pend st)) as [p0|] eqn:Lr.
+    + injection Hr as <-. destruct (Old_pend _ _ _ I r p0 Lr) as (T & HT & Hs & C & Hn & Ho). exists T. unfold txn_set.
+      assert (Hn' : (p_ref p0 =? next_ref st)%nat = false) by (apply Nat.eqb_neq; lia). rewrite Hn'.
+      split; [exact HT|]. split; [exact Hs|]. split; [rewrite A1; exact C|].
+      unfold owner_add. rewrite (lookup_map_snd (pv_of st')).
+      assert (Ln : lookup r news = None).
+      { apply lookup_None_keys. intros Hk. apply In_keys_ex in Hk as [q Hq]. apply (Fresh r q Hq).
+        apply lookup_In_keys. congruence. }
+      rewrite Ln. cbn. exact Ho.
+    + apply lookup_In in Hr as Hin. destruct (A7' r p Hin) as (B1 & B2 & B3 & B4 & B5 & B6).
+      exists {| t_subj := s; t_wait := wait; t_deadline := dl; t_soap := tsoap |}.
+      unfold txn_set. rewrite B2, Nat.eqb_refl. split; [reflexivity|]. split; [cbn; congruence|].
+      split; [rewrite B3, A1; exact Ps|]. left. unfold owner_add. rewrite (lookup_map_snd (pv_of st')), Hr. reflexivity.
+Qed.
+
+(* a global logout is started and ends the session at once (deadline passed, or everybody answered over SOAP) *)
+Lemma LInv_start_end w st st' g s nw kn :
+  LInv w st g -> lookup s (db st) <> None -> db st' = remove s (db st) -> nw = now st' ->
+  (forall r p, lookup r (pend st') = Some p <-> lookup r (pend st) = Some p /\ p_subj p <> s) ->
+  NoDup (keys (pend st')) -> (next_rid st <= next_rid st')%nat -> next_ref st' = S (next_ref st) ->
+  (forall n', n' <> next_ref st -> heap st' n' = heap st n') ->
+  LInv w st' {| g_now := nw; g_know := kn; g_txn := close_txn (view_of st') (txn_set (g_txn g) (next_ref st) None);
+                g_owner := owner_add (g_owner g) (next_ref st) []; g_moot := g_moot g; g_ntxn := S (next_ref st) |}.
+Proof.
+  intros I Ps A2 En Hp ND' A6 Ef Hh. pose proof (L_ntxn _ _ _ I) as Entx.
+  apply (LInv_step_gen w st).
+  - exact I.
+  - exact En.
+  - congruence.
+  - lia.
+  - rewrite A2. apply db_wf_remove, (L_db _ _ _ I).
+  - intros r p Hr. apply Hp in Hr as [Hr _]. pose proof (L_rid _ _ _ I r p Hr). lia.
+  - exact ND'.
+  - intros n' Hn _. apply Hh; exact Hn.
+  - intros T X; discriminate.
+  - intros r n0 a Ho. apply owner_add_cases in Ho as [(pv & X & _)|(_ & Ho)]; [discriminate|].
+    pose proof (L_own_lt _ _ _ I r n0 a Ho). lia.
+  - intros r n0 a T0 Ho Hn HT Pd. apply owner_add_cases in Ho as [(pv & X & _)|(_ & Ho)]; [discriminate|].
+    split; [exact Ho|]. destruct (L_own _ _ _ I r n0 a T0 Ho HT) as [Lr _]. rewrite Lr.
+    apply Hp. split; [exact Lr|]. cbn. intros X. rewrite X, A2, lookup_remove_eq in Pd. apply Pd; reflexivity.
+  - intros r a T _ X; discriminate.
+  - intros r p Hr. apply Hp in Hr as [Hr Ns].
+    destruct (Old_pend _ _ _ I r p Hr) as (T & HT & Hs & C & Hn & Ho). exists T. unfold txn_set.
+    assert (Hn' : (p_ref p =? next_ref st)%nat = false) by (apply Nat.eqb_neq; lia). rewrite Hn'.
+    split; [exact HT|]. split; [exact Hs|].
+    split; [rewrite A2, lookup_remove_neq by exact Ns; exact C|]. unfold owner_add. cbn. exact Ho.
+Qed.
+
 Lemma GStep_start w st g s dl ans st' ou :
-  LInv w st g -> open_trigger w g (view_of st) (StartLogout s dl ans) = 0%nat ->
+  LInv w st g -> open_trigger w g (view_of st) (StartLogout s dl ans) ou = 0%nat ->
   global_logout w ans s dl st = (st', ou) -> GStep w st g (StartLogout s dl ans) st' ou.
 Proof.
   intros I Tr H. unfold global_logout in H. destruct (lookup s (db st)) as [l|] eqn:Ls.
@@ -1068,100 +1357,92 @@ Proof.
       - unfold ghost_step. rewrite P.
         apply (LInv_same_pend w st); try reflexivity; [exact I|cbn; apply (L_now _ _ _ I)|apply (L_db _ _ _ I)|auto]. }
   assert (P : present (view_of st) s = true) by (apply present_view; congruence).
-  pose proof (trigger_start_no_soap _ _ _ _ _ _ _ Tr Ls) as NS.
+  assert (Ps : lookup s (db st) <> None) by congruence.
   destruct (L_db _ _ _ I s l Ls) as [ND NE].
   pose proof (L_now _ _ _ I) as Enow. pose proof (L_ntxn _ _ _ I) as Entx. pose proof (L_nodup _ _ _ I) as NDp.
-  assert (Old : forall r p, lookup r (pend st) = Some p ->
-                  exists T, g_txn g (p_ref p) = Some T /\ t_subj T = p_subj p /\ lookup (p_subj p) (db st) <> None
-                            /\ p_ref p <> next_ref st
-                            /\ (g_owner g r = Some (p_ref p, p_entity p)
-                                \/ (g_owner g r = None /\ g_moot g r = Some (p_ref p, p_entity p)))).
-  { intros r p Hr. destruct (L_pend _ _ _ I r p Hr) as (T & HT & Hs & Ho). exists T.
-    destruct (L_txn _ _ _ I _ T HT) as (A & _ & C & _). rewrite Hs in C.
-    split; [exact HT|]. split; [exact Hs|]. split; [exact C|]. split; [lia|exact Ho]. }
   unfold GStep, ghost_step. rewrite P. cbn [cl_pending cl_ends]. cbv zeta.
-  rewrite issuers_view, Ls, (wait_start_no_soap _ _ _ NS), Enow.
-  apply do_logout_cases in H as [[D [(A & _)|(Lg & ->)]]|(D & Lp & _)].
-  - cbn in A. congruence.
+  rewrite issuers_view, Ls, Enow, Entx. unfold wait_start.
+  set (wait := filter (fun j => negb (soap_ok w ans j)) (keys l)).
+  assert (NDw : NoDup wait) by (apply NoDup_filter; exact ND).
+  assert (Hl : heap (alloc st (keys l)) (next_ref st) = keys l) by (cbn; rewrite Nat.eqb_refl; reflexivity).
+  assert (Hother : forall n', n' <> next_ref st -> heap (alloc st (keys l)) n' = heap st n').
+  { intros n' Hn. cbn. apply Nat.eqb_neq in Hn. rewrite Hn. reflexivity. }
+  destruct (deadline_passed (now st) dl) eqn:D.
   - (* the deadline has passed: local logout *)
-    cbn [now alloc] in D. rewrite D. cbn [orb].
+    cbn [orb].
+    apply do_logout_cases in H as [[_ [(A & _)|(Lg & ->)]]|(D' & _)]; [cbn in A; congruence| |cbn in D'; congruence].
     apply local_logout_some in Lg as (A1 & A2 & A3 & A4 & A5 & A6 & A7). cbn in A1, A2, A3, A4, A6, A7.
     destruct (frame_remove st st' s A2) as (K & N).
     assert (Ab : present (view_of st') s = false) by (apply present_view_false; rewrite A2; apply lookup_remove_eq).
     split; [exact Logic.I|]. split; [split; [exact K|split; [exact N|intros _; exact Ab]]|].
-    rewrite (new_pending_purged st st' s A4). unfold base_ghost.
-    apply (LInv_step_gen w st).
-    + exact I.
+    rewrite (new_pending_sub st st') by (rewrite A4; intros r0; apply keys_filter_subset). unfold base_ghost.
+    apply (LInv_start_end w st st' g s); try assumption.
     + cbn; congruence.
-    + cbn; congruence.
-    + lia.
-    + rewrite A2. apply db_wf_remove, (L_db _ _ _ I).
-    + intros r p Hr. rewrite A4 in Hr. apply (lookup_purge s r p _ NDp) in Hr as [Hr _]. rewrite A6. exact (L_rid _ _ _ I r p Hr).
+    + intros r p. rewrite A4. apply lookup_purge; exact NDp.
     + rewrite A4. apply NoDup_keys_filter; exact NDp.
-    + intros n' Hn _. rewrite A5. cbn. rewrite Entx in Hn. apply Nat.eqb_neq in Hn. rewrite Hn. reflexivity.
-    + intros T X; discriminate.
-    + intros r n0 a Ho. apply owner_add_cases in Ho as [(pv & X & _)|(_ & Ho)]; [discriminate|].
-      pose proof (L_own_lt _ _ _ I r n0 a Ho). lia.
-    + intros r n0 a T0 Ho Hn HT Pd. apply owner_add_cases in Ho as [(pv & X & _)|(_ & Ho)]; [discriminate|].
-      split; [exact Ho|]. destruct (L_own _ _ _ I r n0 a T0 Ho HT) as [Lr _]. rewrite Lr, A4.
-      apply (lookup_purge s r _ _ NDp). split; [exact Lr|]. cbn. intros X. rewrite X, A2, lookup_remove_eq in Pd. apply Pd; reflexivity.
-    + intros r a T _ X; discriminate.
-    + intros r p Hr. rewrite A4 in Hr. apply (lookup_purge s r p _ NDp) in Hr as [Hr Ns].
-      destruct (Old r p Hr) as (T & HT & Hs & C & Hn & Ho). exists T. unfold txn_set. rewrite Entx.
-      apply Nat.eqb_neq in Hn. rewrite Hn. split; [exact HT|]. split; [exact Hs|].
-      split; [rewrite A2, lookup_remove_neq by exact Ns; exact C|]. unfold owner_add. cbn. exact Ho.
-  - (* requests go out; the session stays *)
-    cbn [now alloc] in D. rewrite D. cbn [orb].
-    assert (Hnil : @is_nil issuer (keys l) = false) by (apply is_nil_false; exact NE). rewrite Hnil.
-    destruct Lp as (A1 & A2 & A3 & A4 & news & A5 & A6 & A7 & A8 & A9). cbn in A1, A2, A4, A5, A6.
-    assert (Hn1 : heap st' (next_ref st) = keys l) by (rewrite A3; cbn; rewrite Nat.eqb_refl; reflexivity).
-    assert (A7' : fresh_entries st s (next_ref st) dl (keys l) news).
-    { intros r p Hr. destruct (A7 r p Hr) as (B1 & B2 & B3 & B4 & B5). cbn in B1, B5. rewrite Nat.eqb_refl in B5.
-      repeat (split; [assumption|]). exact B5. }
-    destruct (frame_same st st' None A1) as (K & N).
-    assert (Pa : present (view_of st') s = true) by (apply present_view; rewrite A1; congruence).
-    split; [exact Logic.I|]. split.
-    { split; [apply keeps_weaken; exact K|]. split; [exact N|]. intros _. split; [intros X; exfalso; exact (NE X)|intros X; rewrite Pa in X; discriminate]. }
-    pose proof (fresh_not_old _ _ _ _ _ _ _ _ I A7') as Fresh.
-    rewrite (new_pending_app st st' (pend st) news A5 (fun r H => H) Fresh). unfold base_ghost.
-    apply (LInv_step_gen w st).
-    + exact I.
-    + cbn; congruence.
-    + cbn; congruence.
     + lia.
-    + rewrite A1. apply (L_db _ _ _ I).
-    + intros r p Hr. rewrite A5, lookup_app in Hr. destruct (lookup r (pend st)) as [p0|] eqn:Lr.
-      * pose proof (L_rid _ _ _ I r p0 Lr). lia.
-      * apply lookup_In in Hr. exact (A8 r p Hr).
-    + rewrite A5. apply NoDup_keys_app; [exact NDp|exact A9|].
-      intros k Hk Hk'. apply In_keys_ex in Hk' as [p Hp]. exact (Fresh k p Hp Hk).
-    + intros n' Hn _. rewrite A3. cbn. rewrite Entx in Hn. apply Nat.eqb_neq in Hn. rewrite Hn. reflexivity.
-    + intros T X. injection X as <-. cbn. rewrite Entx. split; [lia|]. split; [exact Hn1|]. split; assumption.
-    + intros r n0 a Ho. apply owner_add_cases in Ho as [(pv & _ & X)|(_ & Ho)]; [injection X as -> _; lia|].
-      pose proof (L_own_lt _ _ _ I r n0 a Ho). lia.
-    + intros r n0 a T0 Ho Hn HT _. apply owner_add_cases in Ho as [(pv & _ & X)|(_ & Ho)]; [injection X as -> _; congruence|].
-      split; [exact Ho|]. destruct (L_own _ _ _ I r n0 a T0 Ho HT) as [Lr _]. rewrite A5. rewrite (lookup_app_old _ _ _ _ Lr), Lr. reflexivity.
-    + intros r a T Ho X. injection X as <-. cbn [t_subj t_deadline t_wait].
-      apply owner_add_cases in Ho as [(pv & Hl & X)|(_ & Ho)].
-      * injection X as ->. rewrite (lookup_map_snd (pv_of st')) in Hl.
-        destruct (lookup r news) as [p|] eqn:Ln; [|discriminate]. cbn in Hl. injection Hl as <-. cbn [pv_of pv_entity].
-        apply lookup_In in Ln as Hin. destruct (A7' r p Hin) as (B1 & B2 & B3 & B4 & B5).
-        assert (Lr : lookup r (pend st) = None) by (apply lookup_None_keys; exact (Fresh r p Hin)).
-        rewrite A5, (lookup_app_new _ _ _ Lr), Ln. split; [|exact B5].
-        rewrite (pentry_eta p) at 1. rewrite B2, B3, B4, Entx. reflexivity.
-      * pose proof (L_own_lt _ _ _ I r _ a Ho). lia.
-    + intros r p Hr. rewrite A5, lookup_app in Hr. destruct (lookup r (pend st)) as [p0|] eqn:Lr.
-      * injection Hr as <-. destruct (Old r p0 Lr) as (T & HT & Hs & C & Hn & Ho). exists T. unfold txn_set. rewrite Entx.
-        apply Nat.eqb_neq in Hn. rewrite Hn. split; [exact HT|]. split; [exact Hs|]. split; [rewrite A1; exact C|].
-        unfold owner_add. rewrite (lookup_map_snd (pv_of st')).
-        assert (Ln : lookup r news = None).
-        { apply lookup_None_keys. intros Hk. apply In_keys_ex in Hk as [q Hq]. apply (Fresh r q Hq).
-          apply lookup_In_keys. congruence. }
-        rewrite Ln. cbn. exact Ho.
-      * apply lookup_In in Hr as Hin. destruct (A7' r p Hin) as (B1 & B2 & B3 & B4 & B5).
-        exists {| t_subj := s; t_wait := keys l; t_deadline := dl; t_soap := existsb (asked_by_soap w) (keys l) |}.
-        unfold txn_set. rewrite B2, Entx, Nat.eqb_refl. split; [reflexivity|]. split; [cbn; congruence|].
-        split; [rewrite B3, A1; congruence|]. left. unfold owner_add. rewrite (lookup_map_snd (pv_of st')), Hr. reflexivity.
+    + intros n' Hn. rewrite A5. apply Hother; exact Hn.
+  - cbn [orb].
+    apply do_logout_pass in H as (st1 & Lp & Hc); [|exact D|rewrite Hl; exact ND]. rewrite Hl in Lp, Hc.
+    destruct Lp as (A1 & A2 & A3 & A4 & news & A5 & A6 & A7 & A8 & A9). cbn in A1, A2, A4, A5, A6.
+    assert (A7' : fresh_entries w st s (next_ref st) dl wait news).
+    { apply fresh_entries_filter. intros r p Hr. destruct (A7 r p Hr) as (B1 & B2 & B3 & B4 & B5 & B6). cbn in B1.
+      repeat (split; [assumption|]). exact B6. }
+    pose proof (fresh_not_old _ _ _ _ _ _ _ _ I A7') as Fresh.
+    (* the session stays *)
+    match goal with |- ?G =>
+      assert (StayProof : wait <> [] -> db st' = db st -> now st' = now st -> pend st' = pend st ++ news ->
+                next_rid st' = next_rid st1 -> next_ref st' = S (next_ref st) ->
+                (forall n', heap st' n' = if (n' =? next_ref st)%nat then wait else heap (alloc st (keys l)) n') -> G)
+    end.
+    { intros NEw B1 B2 B3 B4 B5 B6.
+      destruct (frame_same st st' None B1) as (K & N).
+      assert (Pa : present (view_of st') s = true) by (apply present_view; rewrite B1; exact Ps).
+      split; [exact Logic.I|]. split.
+      { split; [apply keeps_weaken; exact K|]. split; [exact N|]. intros _.
+        split; [intros X; exfalso; exact (NEw X)|intros X; rewrite Pa in X; discriminate]. }
+      rewrite (is_nil_false _ NEw).
+      rewrite (new_pending_app st st' (pend st) news B3 (fun r H => H) Fresh). unfold base_ghost.
+      apply (LInv_start_stay w st st' g s dl wait); try assumption.
+      - cbn. congruence.
+      - lia.
+      - intros r p Hr. rewrite B4. exact (A8 r p Hr).
+      - intros n' Hn. rewrite B6. apply Nat.eqb_neq in Hn as Hn'. rewrite Hn'. apply Hother; exact Hn.
+      - rewrite B6, Nat.eqb_refl. reflexivity. }
+    destruct Hc as [(-> & Ex)|(F1 & F2 & F3 & F4 & Hc)].
+    + (* the pass raised: nobody in it answered over SOAP, everybody is waited for *)
+      pose proof (trigger_start_exn _ _ _ _ _ _ _ _ Tr Ls) as Nx. rewrite Enow in Nx. specialize (Nx D Ex).
+      assert (Ew : wait = keys l) by (apply filter_not_soap_all; exact Nx).
+      apply StayProof; try assumption; try reflexivity.
+      * rewrite Ew; exact NE.
+      * intros n'. rewrite A3. destruct (n' =? next_ref st)%nat eqn:E; [|reflexivity].
+        apply Nat.eqb_eq in E; subst n'. rewrite Hl, Ew. reflexivity.
+    + fold wait in F4, Hc. cbn in F1, F3.
+      destruct Hc as [(Fa & Fb & Fc & Fd)|[(Fa & Fb & Fc & Fd & Fe)|(Fa & Fb)]].
+      * (* requests go out (and some IdPs may have answered over SOAP); the session stays *)
+        assert (NEw : wait <> []).
+        { destruct Fa as [Fa|Fa]; [|exact Fa]. unfold wait. rewrite (filter_not_soap_all _ _ _ Fa). exact NE. }
+        apply StayProof; try assumption; try (rewrite Fc; exact A5).
+      * (* everybody has answered over SOAP: the session ends *)
+        cbn in Fb, Fc. rewrite Fa. cbn [is_nil].
+        destruct (frame_remove st st' s Fc) as (K & N).
+        assert (Ab : present (view_of st') s = false) by (apply present_view_false; rewrite Fc; apply lookup_remove_eq).
+        assert (NDa : NoDup (keys (pend st ++ news))).
+        { apply NoDup_keys_app; [exact NDp|exact A9|].
+          intros k Hk Hk'. apply In_keys_ex in Hk' as [p Hp]. exact (Fresh k p Hp Hk). }
+        assert (Hs : forall r' q, In (r', q) news -> p_subj q = s).
+        { intros r' q Hq. destruct (A7' r' q Hq) as (_ & _ & B3 & _). exact B3. }
+        assert (Hp : forall r p, lookup r (pend st') = Some p <-> lookup r (pend st) = Some p /\ p_subj p <> s).
+        { intros r p. rewrite Fd, A5. apply lookup_purge_app; assumption. }
+        split; [exact Logic.I|]. split; [split; [exact K|split; [exact N|intros _; split; [intros _ _; exact Ab|reflexivity]]]|].
+        rewrite (new_pending_sub st st').
+        2:{ apply keys_sub_of_lookup. intros r p Hr. apply Hp in Hr as [Hr _]. exists p; exact Hr. }
+        unfold base_ghost. apply (LInv_start_end w st st' g s); try assumption.
+        -- cbn. congruence.
+        -- rewrite Fd, A5. apply NoDup_keys_filter; exact NDa.
+        -- lia.
+        -- intros n' Hn. rewrite F4. apply Nat.eqb_neq in Hn as Hn'. rewrite Hn'. apply Hother; exact Hn.
+      * cbn in Fb. congruence.
 Qed.
 
 Lemma answering_some g r i success n T :
@@ -1193,7 +1474,7 @@ Qed.
 (* a LogoutResponse that does not answer a pending request changes nothing (after de5f1fed / 73294247) *)
 Lemma not_answering_same w st g r i success ans st' ou :
   LInv w st g ->
-  open_trigger w g (view_of st) (LogoutResponse r i success ans) = 0%nat ->
+  open_trigger w g (view_of st) (LogoutResponse r i success ans) ou = 0%nat ->
   answering g r i success = None ->
   handle_logout_response w ans r i success st = (st', ou) -> st' = st.
 Proof.
@@ -1206,7 +1487,7 @@ Proof.
   exfalso. apply Nat.eqb_eq in Ei.
   destruct (L_pend _ _ _ I r p Lr) as (T & HT & _ & [Ho|[Ho Hm]]).
   - unfold answering in An. rewrite Ho, Ei, Nat.eqb_refl, HT in An. discriminate.
-  - apply open_trigger_zero in Tr as [_ Tr]. apply Tr. unfold trigger. rewrite Ho.
+  - apply open_trigger_zero in Tr as [Tr _]. apply Tr. unfold trigger. rewrite Ho.
     assert (M : mem r (pending_ids (view_of st)) = true).
     { rewrite pending_ids_view. apply mem_In, lookup_In_keys. congruence. }
     rewrite M, Hm, HT, Ei, Nat.eqb_refl. reflexivity.
@@ -1222,35 +1503,30 @@ Lemma owner_unique g r n i r' n0 a :
   g_owner g r = Some (n, i) -> g_owner g r' = Some (n0, a) -> (n0 <> n \/ a <> i) -> r' <> r.
 Proof. intros A B C ->. rewrite A in B. injection B as <- <-. destruct C as [C|C]; apply C; reflexivity. Qed.
 
-(* the answer that ends the session (last involved IdP, or deadline passed): the subject's other
-   requests are dropped with it *)
+(* the answer that ends the session (last involved IdP, deadline passed, or the rest answers over SOAP):
+   the subject's other requests are dropped with it *)
 Lemma LInv_response_end w st st' g r i n T nw kn :
   LInv w st g -> g_owner g r = Some (n, i) -> g_txn g n = Some T ->
-  db st' = remove (t_subj T) (db st) -> nw = now st' -> pend st' = purge (t_subj T) (remove r (pend st)) ->
-  (forall n', n' <> n -> heap st' n' = heap st n') -> next_rid st' = next_rid st -> next_ref st' = next_ref st ->
+  db st' = remove (t_subj T) (db st) -> nw = now st' ->
+  (forall r' p, lookup r' (pend st') = Some p <-> r' <> r /\ lookup r' (pend st) = Some p /\ p_subj p <> t_subj T) ->
+  NoDup (keys (pend st')) ->
+  (forall n', n' <> n -> heap st' n' = heap st n') -> (next_rid st <= next_rid st')%nat -> next_ref st' = next_ref st ->
   LInv w st' {| g_now := nw; g_know := kn; g_txn := close_txn (view_of st') (txn_set (g_txn g) n None);
                 g_owner := owner_add (owner_drop (g_owner g) n i) n (new_pending (view_of st) (view_of st'));
                 g_moot := moot_add (g_moot g) (g_owner g) n i;
                 g_ntxn := g_ntxn g |}.
 Proof.
-  intros I Ho Ht Ed En Ep Eh Er Ef.
-  pose proof (L_nodup _ _ _ I) as NDp.
-  assert (NDr : NoDup (keys (remove r (pend st)))) by (apply NoDup_keys_remove; exact NDp).
+  intros I Ho Ht Ed En Lk ND' Eh Er Ef.
   assert (NP : new_pending (view_of st) (view_of st') = []).
-  { rewrite (new_pending_app st st' (purge (t_subj T) (remove r (pend st))) []);
-      [reflexivity|rewrite app_nil_r; exact Ep| |intros r' p []].
-    intros r' Hk. apply keys_filter_subset in Hk. exact (keys_remove_subset0 r r' _ Hk). }
-  assert (Lk : forall r' p, lookup r' (pend st') = Some p -> r' <> r /\ lookup r' (pend st) = Some p /\ p_subj p <> t_subj T).
-  { intros r' p Hr. rewrite Ep in Hr. apply (lookup_purge _ r' p _ NDr) in Hr as [Hr Ns].
-    apply lookup_remove_some in Hr as [Ne Hr]. auto. }
+  { apply new_pending_sub. apply keys_sub_of_lookup. intros r' p Hr. apply Lk in Hr as (_ & Hr & _). exists p; exact Hr. }
   rewrite NP. apply (LInv_step_gen w st).
   - exact I.
   - exact En.
   - rewrite Ef. apply (L_ntxn _ _ _ I).
   - lia.
   - rewrite Ed. apply db_wf_remove, (L_db _ _ _ I).
-  - intros r' p Hr. destruct (Lk r' p Hr) as (_ & Hr' & _). rewrite Er. exact (L_rid _ _ _ I r' p Hr').
-  - rewrite Ep. apply NoDup_keys_filter; exact NDr.
+  - intros r' p Hr. apply Lk in Hr as (_ & Hr' & _). pose proof (L_rid _ _ _ I r' p Hr'). lia.
+  - exact ND'.
   - intros n' Hn _. apply Eh; exact Hn.
   - intros T0 X; discriminate.
   - intros r' n0 a Hx. apply owner_add_cases in Hx as [(pv & X & _)|(_ & Hx)]; [discriminate|].
@@ -1259,10 +1535,10 @@ Proof.
     apply owner_drop_some in Hx as [Hx _]. split; [exact Hx|].
     destruct (L_own _ _ _ I r' n0 a T0 Hx HT) as [L0 _].
     assert (Ne : r' <> r) by (eapply owner_unique; [exact Ho|exact Hx|left; exact Hn]).
-    rewrite L0, Ep. apply (lookup_purge _ r' _ _ NDr). split; [rewrite lookup_remove_neq by exact Ne; exact L0|].
+    rewrite L0. apply Lk. split; [exact Ne|]. split; [exact L0|].
     cbn. intros X. rewrite X, Ed, lookup_remove_eq in Pd. apply Pd; reflexivity.
   - intros r' a T0 _ X; discriminate.
-  - intros r' p Hr. destruct (Lk r' p Hr) as (Ne & Hr' & Ns).
+  - intros r' p Hr. apply Lk in Hr as (Ne & Hr' & Ns).
     destruct (L_pend _ _ _ I r' p Hr') as (T' & HT' & Hs & Hm).
     destruct (L_txn _ _ _ I _ T' HT') as (_ & _ & C & _). rewrite Hs in C.
     assert (Hn : p_ref p <> n). { intros X. rewrite X, Ht in HT'. injection HT' as <-. apply Ns. symmetry; exact Hs. }
@@ -1271,8 +1547,82 @@ Proof.
     unfold owner_add. cbn. apply marks_after_answer. exact Hm.
 Qed.
 
+(* the answer after which others are still waited for (they are asked again) *)
+Lemma LInv_response_stay w st st' g r i n T wait' news nw kn :
+  LInv w st g -> g_owner g r = Some (n, i) -> g_txn g n = Some T ->
+  db st' = db st -> nw = now st' -> pend st' = remove r (pend st) ++ news ->
+  (next_rid st <= next_rid st')%nat -> next_ref st' = next_ref st ->
+  fresh_entries w st (t_subj T) n (t_deadline T) wait' news ->
+  (forall r' p, In (r', p) news -> (r' < next_rid st')%nat) -> NoDup (keys news) ->
+  (forall n', n' <> n -> heap st' n' = heap st n') -> heap st' n = wait' -> NoDup wait' ->
+  (forall a, In a (t_wait T) -> a <> i -> asked_by_soap w a = false -> In a wait') ->
+  LInv w st' {| g_now := nw; g_know := kn;
+                g_txn := close_txn (view_of st') (txn_set (g_txn g) n
+                           (Some {| t_subj := t_subj T; t_wait := wait'; t_deadline := t_deadline T; t_soap := t_soap T |}));
+                g_owner := owner_add (owner_drop (g_owner g) n i) n (map (fun rp => (fst rp, pv_of st' (snd rp))) news);
+                g_moot := moot_add (g_moot g) (g_owner g) n i; g_ntxn := g_ntxn g |}.
+Proof.
+  intros I Ho Ht A1 En A5 A6 Ef A7' A8 A9 Hh Hn1 NDw Hsub.
+  destruct (L_txn _ _ _ I n T Ht) as (Hn & Hheap & Ps & ND).
+  pose proof (L_nodup _ _ _ I) as NDp.
+  pose proof (fresh_not_old _ _ _ _ _ _ _ _ I A7') as Fresh.
+  set (T' := {| t_subj := t_subj T; t_wait := wait'; t_deadline := t_deadline T; t_soap := t_soap T |}).
+  apply (LInv_step_gen w st).
+  - exact I.
+  - exact En.
+  - rewrite Ef. apply (L_ntxn _ _ _ I).
+  - lia.
+  - rewrite A1. apply (L_db _ _ _ I).
+  - intros r' p Hr. rewrite A5, lookup_app in Hr. destruct (lookup r' (remove r (pend st))) as [p0|] eqn:L0.
+    + apply lookup_remove_some in L0 as [_ L0]. pose proof (L_rid _ _ _ I r' p0 L0). lia.
+    + apply lookup_In in Hr. exact (A8 r' p Hr).
+  - rewrite A5. apply NoDup_keys_app; [apply NoDup_keys_remove; exact NDp|exact A9|].
+    intros k Hk Hk'. apply In_keys_ex in Hk' as [p Hp]. apply (Fresh k p Hp). exact (keys_remove_subset r k _ Hk).
+  - intros n' Hn' _. apply Hh; exact Hn'.
+  - intros T0 X. injection X as <-. cbn. split; [lia|]. split; [exact Hn1|exact NDw].
+  - intros r' n0 a Hx. apply owner_add_cases in Hx as [(pv & _ & X)|(_ & Hx)].
+    + injection X as -> _. exact (L_own_lt _ _ _ I r n i Ho).
+    + apply owner_drop_some in Hx as [Hx _]. exact (L_own_lt _ _ _ I r' n0 a Hx).
+  - intros r' n0 a T0 Hx Hn0 HT _. apply owner_add_cases in Hx as [(pv & _ & X)|(_ & Hx)]; [injection X as -> _; congruence|].
+    apply owner_drop_some in Hx as [Hx _]. split; [exact Hx|].
+    destruct (L_own _ _ _ I r' n0 a T0 Hx HT) as [L0 _].
+    assert (Ne : r' <> r) by (eapply owner_unique; [exact Ho|exact Hx|left; exact Hn0]).
+    rewrite A5. etransitivity; [apply lookup_app_old; rewrite lookup_remove_neq by exact Ne; exact L0|symmetry; exact L0].
+  - intros r' a T0 Hx X. injection X as <-. cbn [t_subj t_deadline t_wait].
+    apply owner_add_cases in Hx as [(pv & Hl & X)|(_ & Hx)].
+    + injection X as ->. rewrite (lookup_map_snd (pv_of st')) in Hl.
+      destruct (lookup r' news) as [p|] eqn:Ln; [|discriminate]. cbn in Hl. injection Hl as <-. cbn [pv_of pv_entity].
+      apply lookup_In in Ln as Hi. destruct (A7' r' p Hi) as (B1 & B2 & B3 & B4 & B5 & B6).
+      assert (L0 : lookup r' (remove r (pend st)) = None).
+      { apply lookup_None_keys. intros X. apply keys_remove_subset in X. exact (Fresh r' p Hi X). }
+      rewrite A5, (lookup_app_new _ _ _ L0), Ln. split; [|split; [exact B5|exact B6]].
+      rewrite (pentry_eta p) at 1. rewrite B2, B3, B4. reflexivity.
+    + apply owner_drop_some in Hx as [Hx Ha]. specialize (Ha eq_refl).
+      destruct (L_own _ _ _ I r' n a T Hx Ht) as (L0 & Hin0 & Fr0).
+      assert (Ne : r' <> r) by (eapply owner_unique; [exact Ho|exact Hx|right; exact Ha]).
+      rewrite A5. split; [apply lookup_app_old; rewrite lookup_remove_neq by exact Ne; exact L0|].
+      split; [apply Hsub; assumption|exact Fr0].
+  - intros r' p Hr. rewrite A5, lookup_app in Hr. destruct (lookup r' (remove r (pend st))) as [p0|] eqn:L0.
+    + injection Hr as <-. apply lookup_remove_some in L0 as [Ne L0].
+      destruct (L_pend _ _ _ I r' p0 L0) as (T0 & HT0 & Hs & Hm).
+      destruct (L_txn _ _ _ I _ T0 HT0) as (_ & _ & C & _). rewrite Hs in C.
+      assert (Ln : lookup r' news = None).
+      { apply lookup_None_keys. intros Hk. apply In_keys_ex in Hk as [q Hq]. apply (Fresh r' q Hq).
+        apply lookup_In_keys. congruence. }
+      assert (Marks : owner_add (owner_drop (g_owner g) n i) n (map (fun rp => (fst rp, pv_of st' (snd rp))) news) r'
+                      = owner_drop (g_owner g) n i r').
+      { unfold owner_add. rewrite (lookup_map_snd (pv_of st')), Ln. reflexivity. }
+      rewrite Marks. unfold txn_set. destruct (p_ref p0 =? n)%nat eqn:En0.
+      * apply Nat.eqb_eq in En0. rewrite En0, Ht in HT0. injection HT0 as <-. exists T'.
+        split; [reflexivity|]. split; [exact Hs|]. split; [rewrite A1; exact C|]. apply marks_after_answer. exact Hm.
+      * exists T0. split; [exact HT0|]. split; [exact Hs|]. split; [rewrite A1; exact C|]. apply marks_after_answer. exact Hm.
+    + apply lookup_In in Hr as Hi. destruct (A7' r' p Hi) as (B1 & B2 & B3 & B4 & B5 & B6).
+      exists T'. unfold txn_set. rewrite B2, Nat.eqb_refl. split; [reflexivity|]. split; [cbn; congruence|].
+      split; [rewrite B3, A1; exact Ps|]. left. unfold owner_add. rewrite (lookup_map_snd (pv_of st')), Hr. reflexivity.
+Qed.
+
 Lemma GStep_response w st g r i success ans st' ou :
-  LInv w st g -> open_trigger w g (view_of st) (LogoutResponse r i success ans) = 0%nat ->
+  LInv w st g -> open_trigger w g (view_of st) (LogoutResponse r i success ans) ou = 0%nat ->
   handle_logout_response w ans r i success st = (st', ou) ->
   GStep w st g (LogoutResponse r i success ans) st' ou.
 Proof.
@@ -1283,14 +1633,22 @@ Proof.
       split; [intros _; split; reflexivity|]. split; [exact Logic.I|].
       apply (LInv_same_pend w st); try reflexivity; [exact I|cbn; apply (L_now _ _ _ I)|apply (L_db _ _ _ I)|auto]. }
   destruct (answering_some _ _ _ _ _ _ An) as (-> & Ho & Ht).
-  destruct (L_own _ _ _ I r n i T Ho Ht) as [Lr Hin].
-  destruct (L_txn _ _ _ I n T Ht) as (Hn & Hh & Ps & ND & NS).
+  destruct (L_own _ _ _ I r n i T Ho Ht) as (Lr & Hin & Fri).
+  destruct (L_txn _ _ _ I n T Ht) as (Hn & Hh & Ps & ND).
   pose proof (L_now _ _ _ I) as Enow. pose proof (L_ntxn _ _ _ I) as Entx. pose proof (L_nodup _ _ _ I) as NDp.
+  assert (NDr : NoDup (keys (remove r (pend st)))) by (apply NoDup_keys_remove; exact NDp).
   unfold handle_logout_response in H. cbn [negb] in H. rewrite Lr in H.
   cbn [p_entity p_ref p_subj p_expire] in H. rewrite Nat.eqb_refl in H. cbn [negb set_pend heap] in H. rewrite Hh in H.
   unfold GStep, ghost_step. cbn [cl_pending cl_ends]. rewrite An. cbv zeta.
-  rewrite (wait_answer_no_soap _ ans i _ NS), (wait_minus_remove_first i _ ND), Enow.
+  rewrite (wait_answer_filter w ans i _ ND), (wait_minus_remove_first i _ ND), Enow.
   split; [intros X; discriminate|].
+  (* the session ends: the subject's requests go with it *)
+  assert (EndLk : forall olds news, pend st' = purge (t_subj T) (olds ++ news) -> olds = remove r (pend st) ->
+            NoDup (keys (olds ++ news)) -> (forall r' q, In (r', q) news -> p_subj q = t_subj T) ->
+            forall r' p, lookup r' (pend st') = Some p <-> r' <> r /\ lookup r' (pend st) = Some p /\ p_subj p <> t_subj T).
+  { intros olds news Ep -> Nd Hs r' p. rewrite Ep, (lookup_purge_app _ _ _ r' p Nd Hs). split.
+    - intros [L0 Ns]. apply lookup_remove_some in L0 as [Ne L0]. auto.
+    - intros (Ne & L0 & Ns). split; [rewrite lookup_remove_neq by exact Ne; exact L0|exact Ns]. }
   destruct (list_eqb (t_wait T) [i]) eqn:Eq.
   - (* the last involved IdP has answered *)
     apply list_eqb_eq in Eq.
@@ -1301,101 +1659,107 @@ Proof.
     apply local_logout_some in Lg as (A1 & A2 & A3 & A4 & A5 & A6 & A7). cbn in A1, A2, A3, A4, A5, A6, A7.
     destruct (frame_remove st st2 (t_subj T) A2) as (K & N).
     assert (W0 : remove_first i (t_wait T) = []) by (rewrite Eq; cbn; rewrite Nat.eqb_refl; reflexivity).
-    rewrite W0. split.
+    rewrite W0. cbn [filter]. split.
     + split; [exact K|]. split; [exact N|]. destruct (deadline_passed (now st) (t_deadline T)); [exact Ab|].
       split; [intros _; exact Ab|]. split; [intros _ _; exact Ab|reflexivity].
     + cbn [is_nil]. rewrite orb_true_r. unfold base_ghost.
       apply (LInv_response_end w st st2 g r i n T); try assumption.
       * cbn. congruence.
+      * apply (EndLk (remove r (pend st)) []); [rewrite app_nil_r; exact A4|reflexivity|rewrite app_nil_r; exact NDr|intros r' q []].
+      * rewrite A4. apply NoDup_keys_filter; exact NDr.
       * intros n' _. rewrite A5. reflexivity.
+      * lia.
   - assert (Mi : mem i (t_wait T) = true) by (apply mem_In; exact Hin). rewrite Mi in H.
-    set (st2 := set_heap (set_pend st (remove r (pend st))) n (remove_first i (t_wait T))) in *.
-    assert (NE : remove_first i (t_wait T) <> []).
+    set (l0 := remove_first i (t_wait T)) in *.
+    set (st2 := set_heap (set_pend st (remove r (pend st))) n l0) in *.
+    assert (NE : l0 <> []).
     { intros X. apply (remove_first_nil _ _ Hin) in X. rewrite X in Eq. cbn in Eq. rewrite Nat.eqb_refl in Eq. discriminate. }
-    apply do_logout_cases in H as [[D [(A & _)|(Lg & ->)]]|(D & Lp & _)].
-    + cbn in A. congruence.
+    assert (ND0 : NoDup l0) by (apply NoDup_remove_first; exact ND).
+    assert (Hl : heap st2 n = l0) by (cbn; rewrite Nat.eqb_refl; reflexivity).
+    assert (Hother : forall n', n' <> n -> heap st2 n' = heap st n').
+    { intros n' Hn'. cbn. apply Nat.eqb_neq in Hn'. rewrite Hn'. reflexivity. }
+    set (wait' := filter (fun e => negb (soap_ok w ans e)) l0).
+    destruct (deadline_passed (now st) (t_deadline T)) eqn:D.
     + (* the deadline has passed *)
-      cbn [now st2 set_heap set_pend] in D. rewrite D. cbn [orb].
+      cbn [orb].
+      apply do_logout_cases in H as [[_ [(A & _)|(Lg & ->)]]|(D' & _)]; [cbn in A; congruence| |cbn in D'; congruence].
       pose proof (removed_absent _ _ _ Lg) as Ab.
       apply local_logout_some in Lg as (A1 & A2 & A3 & A4 & A5 & A6 & A7). cbn in A1, A2, A3, A4, A6, A7.
       destruct (frame_remove st st' (t_subj T) A2) as (K & N).
       split; [split; [exact K|split; [exact N|exact Ab]]|].
       unfold base_ghost. apply (LInv_response_end w st st' g r i n T); try assumption.
       * cbn. congruence.
-      * intros n' Hn'. rewrite A5. cbn. apply Nat.eqb_neq in Hn'. rewrite Hn'. reflexivity.
-    + (* the others are asked again; the session stays *)
-      cbn [now st2 set_heap set_pend] in D. rewrite D. cbn [orb].
-      assert (Hnil : @is_nil issuer (remove_first i (t_wait T)) = false) by (apply is_nil_false; exact NE). rewrite Hnil.
-      destruct Lp as (A1 & A2 & A3 & A4 & news & A5 & A6 & A7 & A8 & A9). cbn in A1, A2, A4, A5, A6.
-      assert (Hn1 : heap st' n = remove_first i (t_wait T)) by (rewrite A3; cbn; rewrite Nat.eqb_refl; reflexivity).
-      assert (A7' : fresh_entries st (t_subj T) n (t_deadline T) (remove_first i (t_wait T)) news).
-      { intros r' p Hr. destruct (A7 r' p Hr) as (B1 & B2 & B3 & B4 & B5). cbn in B1, B5. rewrite Nat.eqb_refl in B5.
-        repeat (split; [assumption|]). exact B5. }
-      destruct (frame_same st st' None A1) as (K & N).
-      assert (Pa : present (view_of st') (t_subj T) = true) by (apply present_view; rewrite A1; exact Ps).
-      split.
-      { split; [apply keeps_weaken; exact K|]. split; [exact N|].
-        split; [intros X; exfalso; exact (NE X)|]. split; [intros X; exfalso; exact (NE X)|].
-        intros X; rewrite Pa in X; discriminate. }
-      pose proof (fresh_not_old _ _ _ _ _ _ _ _ I A7') as Fresh.
-      rewrite (new_pending_app st st' (remove r (pend st)) news A5 (fun r' => keys_remove_subset r r' (pend st)) Fresh).
-      set (T' := {| t_subj := t_subj T; t_wait := remove_first i (t_wait T); t_deadline := t_deadline T; t_soap := t_soap T |}).
-      unfold base_ghost. apply (LInv_step_gen w st).
-      * exact I.
-      * cbn. congruence.
-      * cbn. congruence.
+      * apply (EndLk (remove r (pend st)) []); [rewrite app_nil_r; exact A4|reflexivity|rewrite app_nil_r; exact NDr|intros r' q []].
+      * rewrite A4. apply NoDup_keys_filter; exact NDr.
+      * intros n' Hn'. rewrite A5. apply Hother; exact Hn'.
       * lia.
-      * rewrite A1. apply (L_db _ _ _ I).
-      * intros r' p Hr. rewrite A5, lookup_app in Hr. destruct (lookup r' (remove r (pend st))) as [p0|] eqn:L0.
-        -- apply lookup_remove_some in L0 as [_ L0]. pose proof (L_rid _ _ _ I r' p0 L0). lia.
-        -- apply lookup_In in Hr. exact (A8 r' p Hr).
-      * rewrite A5. apply NoDup_keys_app; [apply NoDup_keys_remove; exact NDp|exact A9|].
-        intros k Hk Hk'. apply In_keys_ex in Hk' as [p Hp]. apply (Fresh k p Hp). exact (keys_remove_subset r k _ Hk).
-      * intros n' Hn' _. rewrite A3. cbn. apply Nat.eqb_neq in Hn'. rewrite Hn'. reflexivity.
-      * intros T0 X. injection X as <-. cbn. split; [lia|]. split; [exact Hn1|].
-        split; [apply NoDup_remove_first; exact ND|]. intros j Hj. apply NS. eapply remove_first_subset; exact Hj.
-      * intros r' n0 a Hx. apply owner_add_cases in Hx as [(pv & _ & X)|(_ & Hx)].
-        -- injection X as -> _. exact (L_own_lt _ _ _ I r n i Ho).
-        -- apply owner_drop_some in Hx as [Hx _]. exact (L_own_lt _ _ _ I r' n0 a Hx).
-      * intros r' n0 a T0 Hx Hn0 HT _. apply owner_add_cases in Hx as [(pv & _ & X)|(_ & Hx)]; [injection X as -> _; congruence|].
-        apply owner_drop_some in Hx as [Hx _]. split; [exact Hx|].
-        destruct (L_own _ _ _ I r' n0 a T0 Hx HT) as [L0 _].
-        assert (Ne : r' <> r) by (eapply owner_unique; [exact Ho|exact Hx|left; exact Hn0]).
-        rewrite A5. etransitivity; [apply lookup_app_old; rewrite lookup_remove_neq by exact Ne; exact L0|symmetry; exact L0].
-      * intros r' a T0 Hx X. injection X as <-. cbn [t_subj t_deadline t_wait].
-        apply owner_add_cases in Hx as [(pv & Hl & X)|(_ & Hx)].
-        -- injection X as ->. rewrite (lookup_map_snd (pv_of st')) in Hl.
-           destruct (lookup r' news) as [p|] eqn:Ln; [|discriminate]. cbn in Hl. injection Hl as <-. cbn [pv_of pv_entity].
-           apply lookup_In in Ln as Hi. destruct (A7' r' p Hi) as (B1 & B2 & B3 & B4 & B5).
-           assert (L0 : lookup r' (remove r (pend st)) = None).
-           { apply lookup_None_keys. intros X. apply keys_remove_subset in X. exact (Fresh r' p Hi X). }
-           rewrite A5, (lookup_app_new _ _ _ L0), Ln. split; [|exact B5].
-           rewrite (pentry_eta p) at 1. rewrite B2, B3, B4. reflexivity.
-        -- apply owner_drop_some in Hx as [Hx Ha]. specialize (Ha eq_refl).
-           destruct (L_own _ _ _ I r' n a T Hx Ht) as [L0 Hin0].
-           assert (Ne : r' <> r) by (eapply owner_unique; [exact Ho|exact Hx|right; exact Ha]).
-           rewrite A5. split; [apply lookup_app_old; rewrite lookup_remove_neq by exact Ne; exact L0|apply In_remove_first; assumption].
-      * intros r' p Hr. rewrite A5, lookup_app in Hr. destruct (lookup r' (remove r (pend st))) as [p0|] eqn:L0.
-        -- injection Hr as <-. apply lookup_remove_some in L0 as [Ne L0].
-           destruct (L_pend _ _ _ I r' p0 L0) as (T0 & HT0 & Hs & Hm).
-           destruct (L_txn _ _ _ I _ T0 HT0) as (_ & _ & C & _). rewrite Hs in C.
-           assert (Ln : lookup r' news = None).
-           { apply lookup_None_keys. intros Hk. apply In_keys_ex in Hk as [q Hq]. apply (Fresh r' q Hq).
-             apply lookup_In_keys. congruence. }
-           assert (Marks : owner_add (owner_drop (g_owner g) n i) n (map (fun rp => (fst rp, pv_of st' (snd rp))) news) r'
-                           = owner_drop (g_owner g) n i r').
-           { unfold owner_add. rewrite (lookup_map_snd (pv_of st')), Ln. reflexivity. }
-           rewrite Marks. unfold txn_set. destruct (p_ref p0 =? n)%nat eqn:En.
-           ++ apply Nat.eqb_eq in En. rewrite En, Ht in HT0. injection HT0 as <-. exists T'.
-              split; [reflexivity|]. split; [exact Hs|]. split; [rewrite A1; exact C|]. apply marks_after_answer. exact Hm.
-           ++ exists T0. split; [exact HT0|]. split; [exact Hs|]. split; [rewrite A1; exact C|]. apply marks_after_answer. exact Hm.
-        -- apply lookup_In in Hr as Hi. destruct (A7' r' p Hi) as (B1 & B2 & B3 & B4 & B5).
-           exists T'. unfold txn_set. rewrite B2, Nat.eqb_refl. split; [reflexivity|]. split; [cbn; congruence|].
-           split; [rewrite B3, A1; exact Ps|]. left. unfold owner_add. rewrite (lookup_map_snd (pv_of st')), Hr. reflexivity.
+    + cbn [orb].
+      apply do_logout_pass in H as (st1 & Lp & Hc); [|exact D|rewrite Hl; exact ND0]. rewrite Hl in Lp, Hc.
+      destruct Lp as (A1 & A2 & A3 & A4 & news & A5 & A6 & A7 & A8 & A9). cbn in A1, A2, A4, A5, A6.
+      assert (A7' : fresh_entries w st (t_subj T) n (t_deadline T) wait' news).
+      { apply fresh_entries_filter. intros r' p Hr. destruct (A7 r' p Hr) as (B1 & B2 & B3 & B4 & B5 & B6). cbn in B1.
+        repeat (split; [assumption|]). exact B6. }
+      pose proof (fresh_not_old _ _ _ _ _ _ _ _ I A7') as Fresh.
+      assert (Hsub0 : forall a, In a (t_wait T) -> a <> i -> asked_by_soap w a = false -> In a wait').
+      { intros a Ha Na Fa. apply filter_In. split; [apply In_remove_first; assumption|].
+        rewrite (soap_ok_front w ans a Fa). reflexivity. }
+      match goal with |- ?G =>
+        assert (StayProof : wait' <> [] -> db st' = db st -> now st' = now st -> pend st' = remove r (pend st) ++ news ->
+                  next_rid st' = next_rid st1 -> next_ref st' = next_ref st ->
+                  (forall n', heap st' n' = if (n' =? n)%nat then wait' else heap st2 n') -> G)
+      end.
+      { intros NEw B1 B2 B3 B4 B5 B6.
+        destruct (frame_same st st' None B1) as (K & N).
+        assert (Pa : present (view_of st') (t_subj T) = true) by (apply present_view; rewrite B1; exact Ps).
+        split.
+        { split; [apply keeps_weaken; exact K|]. split; [exact N|].
+          split; [intros X; exfalso; exact (NE X)|]. split; [intros X; exfalso; exact (NEw X)|].
+          intros X; rewrite Pa in X; discriminate. }
+        rewrite (is_nil_false _ NEw).
+        rewrite (new_pending_app st st' (remove r (pend st)) news B3 (fun r' => keys_remove_subset r r' (pend st)) Fresh).
+        unfold base_ghost. apply (LInv_response_stay w st st' g r i n T wait' news); try assumption.
+        - cbn. congruence.
+        - lia.
+        - intros r' p Hr. rewrite B4. exact (A8 r' p Hr).
+        - intros n' Hn'. rewrite B6. apply Nat.eqb_neq in Hn' as Hn2. rewrite Hn2. apply Hother; exact Hn'.
+        - rewrite B6, Nat.eqb_refl. reflexivity.
+        - apply NoDup_filter; exact ND0. }
+      destruct Hc as [(-> & Ex)|(F1 & F2 & F3 & F4 & Hc)].
+      * (* the pass raised: nobody in it answered over SOAP *)
+        pose proof (trigger_response_exn _ _ _ _ _ _ _ _ _ Tr Ho Ht) as Nx. rewrite Enow in Nx. specialize (Nx D Ex).
+        rewrite (wait_minus_remove_first i _ ND) in Nx. fold l0 in Nx.
+        assert (Ew : wait' = l0) by (apply filter_not_soap_all; exact Nx).
+        apply StayProof; try assumption; try reflexivity.
+        -- rewrite Ew; exact NE.
+        -- intros n'. rewrite A3. destruct (n' =? n)%nat eqn:E; [|reflexivity].
+           apply Nat.eqb_eq in E; subst n'. rewrite Hl, Ew. reflexivity.
+      * fold wait' in F4, Hc. cbn in F1, F3.
+        destruct Hc as [(Fa & Fb & Fc & Fd)|[(Fa & Fb & Fc & Fd & Fe)|(Fa & Fb)]].
+        -- assert (NEw : wait' <> []).
+           { destruct Fa as [Fa|Fa]; [|exact Fa]. unfold wait'. rewrite (filter_not_soap_all _ _ _ Fa). exact NE. }
+           apply StayProof; try assumption; try (rewrite Fc; exact A5).
+        -- (* the others have all answered over SOAP: the session ends *)
+           cbn in Fb, Fc. rewrite Fa. cbn [is_nil].
+           destruct (frame_remove st st' (t_subj T) Fc) as (K & N).
+           assert (Ab : present (view_of st') (t_subj T) = false) by (apply present_view_false; rewrite Fc; apply lookup_remove_eq).
+           assert (NDa : NoDup (keys (remove r (pend st) ++ news))).
+           { apply NoDup_keys_app; [exact NDr|exact A9|].
+             intros k Hk Hk'. apply In_keys_ex in Hk' as [p Hp]. apply (Fresh k p Hp). exact (keys_remove_subset r k _ Hk). }
+           assert (Hs : forall r' q, In (r', q) news -> p_subj q = t_subj T).
+           { intros r' q Hq. destruct (A7' r' q Hq) as (_ & _ & B3 & _). exact B3. }
+           split; [split; [exact K|split; [exact N|]]|].
+           { split; [intros _; exact Ab|]. split; [intros _ _; exact Ab|reflexivity]. }
+           unfold base_ghost. apply (LInv_response_end w st st' g r i n T); try assumption.
+           ++ cbn. congruence.
+           ++ apply (EndLk (remove r (pend st)) news); [rewrite Fd, A5; reflexivity|reflexivity|exact NDa|exact Hs].
+           ++ rewrite Fd, A5. apply NoDup_keys_filter; exact NDa.
+           ++ intros n' Hn'. rewrite F4. apply Nat.eqb_neq in Hn' as Hn2. rewrite Hn2. apply Hother; exact Hn'.
+           ++ lia.
+        -- cbn in Fb. congruence.
 Qed.
 
 Lemma guarded_step w st g o st' ou :
-  LInv w st g -> open_trigger w g (view_of st) o = 0%nat -> step w st o = (st', ou) -> GStep w st g o st' ou.
+  LInv w st g -> open_trigger w g (view_of st) o ou = 0%nat -> step w st o = (st', ou) -> GStep w st g o st' ou.
 Proof.
   intros I Tr H. destruct o; cbn [step] in H.
   - injection H as <- <-. apply GStep_store; [exact I|reflexivity].
@@ -1427,7 +1791,7 @@ Proof.
   unfold first_trigger_from.
   induction h as [|o r IH]; intros w st g I Tr; cbn; [split; exact Logic.I|].
   cbn in Tr. destruct (step w st o) as [st' ou] eqn:S. cbn in Tr |- *.
-  destruct (open_trigger w g (view_of st) o) eqn:T0; [|discriminate].
+  destruct (open_trigger w g (view_of st) o ou) eqn:T0; [|discriminate].
   destruct (guarded_step _ _ _ _ _ _ I T0 S) as (A & B & C).
   destruct (IH w st' _ C Tr) as [D E]. split; split; assumption.
 Qed.
@@ -1717,12 +2081,12 @@ Qed.
 
 (* ================================================================ up to the first trigger *)
 (* The sharper statement: on EVERY history, every step before the first step that falls into an OPEN
-   finding class (1, 4) satisfies all clauses (Corr.cls excuses exactly the steps from that trigger on). *)
+   finding class (4, 5) satisfies all clauses (Corr.cls excuses exactly the steps from that trigger on). *)
 Fixpoint spec_until_from (cl : clause) (w : world) (g : ghost) (vb : view) (tr : trace) : Prop :=
   match tr with
   | [] => True
   | (o, ou, va) :: r =>
-      open_trigger w g vb o = 0%nat -> cl w g vb o ou va /\ spec_until_from cl w (ghost_step w g vb o ou va) va r
+      open_trigger w g vb o ou = 0%nat -> cl w g vb o ou va /\ spec_until_from cl w (ghost_step w g vb o ou va) va r
   end.
 Definition spec_until (w : world) (t0 : Z) (tr : trace) : Prop := spec_until_from step_ok w (ghost0 t0) empty_view tr.
 
@@ -1754,7 +2118,7 @@ Lemma until_guard w : forall tr g vb,
 Proof.
   unfold first_trigger_from.
   induction tr as [|[[o ou] va] r IH]; intros g vb H T; cbn in *; [exact I|].
-  destruct (open_trigger w g vb o) eqn:E; [|discriminate]. destruct (H eq_refl) as [A B]. split; [exact A|apply IH; assumption].
+  destruct (open_trigger w g vb o ou) eqn:E; [|discriminate]. destruct (H eq_refl) as [A B]. split; [exact A|apply IH; assumption].
 Qed.
 
 (* ================================================================ the known finding classes are real (faithful model) *)
@@ -1763,8 +2127,9 @@ Definition w_soap : world := {| w_pref := [SOAP; REDIRECT; POST]; w_slo := [[SOA
 Definition w_front : world := {| w_pref := [SOAP; REDIRECT; POST]; w_slo := [[REDIRECT]; [POST]] |}.
 
 Definition w_three : world := {| w_pref := [SOAP; REDIRECT; POST]; w_slo := [[REDIRECT]; [REDIRECT]; [REDIRECT]] |}.
+Definition w_mixed : world := {| w_pref := [SOAP; REDIRECT; POST]; w_slo := [[REDIRECT]; [SOAP]; [POST]] |}.
 
-(* class 1 (open): the only IdP is asked over SOAP and answers Success; the session stays *)
+(* class 1 (fixed by 0bae05f7): the only IdP is asked over SOAP and answers Success; the session stayed *)
 Definition h_soap : list op := [Login 0 0 2000 1; StartLogout 0 None [SA_ok]; GetIdentity 0 [] true].
 (* class 2 (fixed by de5f1fed): IdP 1 answers the request that was sent to IdP 0 *)
 Definition h_wrong_party : list op :=
@@ -1778,50 +2143,67 @@ Definition h_stale : list op :=
 Definition h_moot : list op :=
   [Login 0 0 2000 1; Login 0 1 2000 2; Login 0 2 2000 3; StartLogout 0 None [];
    LogoutResponse 0 0 true []; LogoutResponse 1 1 true []; LogoutResponse 3 1 true []].
+(* class 5 (open, residue of 1): IdP 1 answers Success over SOAP in a pass that then raises (the session
+   information of IdP 2 has been reset: AttributeError); its answer is forgotten, so after the front-channel
+   IdPs 0 and 2 have answered, the session still waits for IdP 1 (which now fails) *)
+Definition h_forgotten : list op :=
+  [Login 0 0 2000 1; Login 0 1 2000 2; Login 0 2 2000 3; Reset 0 2;
+   StartLogout 0 None [SA_none; SA_ok; SA_none]; Login 0 2 2000 4;
+   LogoutResponse 0 0 true [SA_none; SA_http; SA_none]; LogoutResponse 1 2 true [SA_none; SA_http; SA_none];
+   GetIdentity 0 [] true].
 
 Lemma refute w t0 tr : spec_b w t0 tr = false -> ~ spec w t0 tr.
 Proof. intros E H. apply spec_b_iff in H. congruence. Qed.
 
-Lemma soap_refuted : exists w t0 h, first_trigger w t0 (run w t0 h) = 1%nat /\ ~ spec w t0 (run w t0 h).
-Proof. exists w_soap, 1000%Z, h_soap. split; [vm_compute; reflexivity|apply refute; vm_compute; reflexivity]. Qed.
-
 Lemma moot_refuted : exists w t0 h, first_trigger w t0 (run w t0 h) = 4%nat /\ ~ spec w t0 (run w t0 h).
 Proof. exists w_three, 1000%Z, h_moot. split; [vm_compute; reflexivity|apply refute; vm_compute; reflexivity]. Qed.
 
-(* the behaviour before each fix violated the property (run_v0 party purge: false = that fix reverted) *)
+Lemma forgotten_refuted : exists w t0 h, first_trigger w t0 (run w t0 h) = 5%nat /\ ~ spec w t0 (run w t0 h).
+Proof. exists w_mixed, 1000%Z, h_forgotten. split; [vm_compute; reflexivity|apply refute; vm_compute; reflexivity]. Qed.
+
+(* the behaviour before each fix violated the property (run_v0 party purge soap: false = that fix reverted) *)
+Lemma soap_v0_refuted :
+  exists w t0 h, first_any_trigger w t0 (run_v0 true true false w t0 h) = 1%nat /\ ~ spec w t0 (run_v0 true true false w t0 h).
+Proof. exists w_soap, 1000%Z, h_soap. split; [vm_compute; reflexivity|apply refute; vm_compute; reflexivity]. Qed.
+
 Lemma wrong_party_v0_refuted :
-  exists w t0 h, first_any_trigger w t0 (run_v0 false true w t0 h) = 2%nat /\ ~ spec w t0 (run_v0 false true w t0 h).
+  exists w t0 h, first_any_trigger w t0 (run_v0 false true true w t0 h) = 2%nat /\ ~ spec w t0 (run_v0 false true true w t0 h).
 Proof. exists w_front, 1000%Z, h_wrong_party. split; [vm_compute; reflexivity|apply refute; vm_compute; reflexivity]. Qed.
 
 Lemma stale_v0_refuted :
-  exists w t0 h, first_any_trigger w t0 (run_v0 true false w t0 h) = 3%nat /\ ~ spec w t0 (run_v0 true false w t0 h).
+  exists w t0 h, first_any_trigger w t0 (run_v0 true false true w t0 h) = 3%nat /\ ~ spec w t0 (run_v0 true false true w t0 h).
 Proof. exists w_front, 1000%Z, h_stale. split; [vm_compute; reflexivity|apply refute; vm_compute; reflexivity]. Qed.
 
 Lemma original_v0_refuted :
-  exists w t0 h, first_any_trigger w t0 (run_v0 false false w t0 h) = 3%nat /\ ~ spec w t0 (run_v0 false false w t0 h).
-Proof. exists w_front, 1000%Z, h_stale. split; [vm_compute; reflexivity|apply refute; vm_compute; reflexivity]. Qed.
+  exists w t0 h, ~ spec w t0 (run_v0 false false false w t0 h).
+Proof. exists w_front, 1000%Z, h_stale. apply refute; vm_compute; reflexivity. Qed.
 
-(* with both fixes the _v0 definitions are the model *)
-Lemma step_v0_fixed w st o : step_v0 true true w st o = step w st o.
+(* with all fixes the _v0 definitions are the model *)
+Lemma step_v0_fixed w st o : step_v0 true true true w st o = step w st o.
 Proof. destruct o; reflexivity. Qed.
-Lemma run_v0_fixed w t0 h : run_v0 true true w t0 h = run w t0 h.
+Lemma run_v0_fixed w t0 h : run_v0 true true true w t0 h = run w t0 h.
 Proof.
   unfold run_v0, run. generalize (init t0). induction h as [|o r IH]; intros st; cbn [run_from_v0 run_from]; [reflexivity|].
   rewrite step_v0_fixed. destruct (step w st o) as [st' ou]. rewrite IH. reflexivity.
 Qed.
 
-(* ... and the repaired code satisfies the whole property on the two histories *)
+(* ... and the repaired code satisfies the whole property on the three histories *)
+Example soap_now : spec w_soap 1000 (run w_soap 1000 h_soap).
+Proof. apply guarded_spec. vm_compute. reflexivity. Qed.
 Example wrong_party_now : spec w_front 1000 (run w_front 1000 h_wrong_party).
 Proof. apply guarded_spec. vm_compute. reflexivity. Qed.
 Example stale_now : spec w_front 1000 (run w_front 1000 h_stale).
 Proof. apply guarded_spec. vm_compute. reflexivity. Qed.
 
 (* what goes / went wrong, in the model's own outputs *)
-Example soap_session_survives :
-  map (fun x => snd (fst x)) (run w_soap 1000 h_soap) = [OUnit; OSent [SentSoap 0]; OIdentity [1] []].
+Example soap_session_survived_v0 :
+  map (fun x => snd (fst x)) (run_v0 true true false w_soap 1000 h_soap) = [OUnit; OSent [SentSoap 0]; OIdentity [1] []].
+Proof. vm_compute. reflexivity. Qed.
+Example soap_session_ends_now :
+  map (fun x => snd (fst x)) (run w_soap 1000 h_soap) = [OUnit; OSent [SentSoap 0]; OIdentity [] []].
 Proof. vm_compute. reflexivity. Qed.
 Example stale_answer_ended_new_session_v0 :
-  map (fun x => snd (fst x)) (run_v0 true false w_front 1000 h_stale)
+  map (fun x => snd (fst x)) (run_v0 true false true w_front 1000 h_stale)
   = [OUnit; OSent [SentPending 0 REDIRECT 0]; OBool true; OUnit; ODone; OIdentity [] []].
 Proof. vm_compute. reflexivity. Qed.
 Example stale_answer_unknown_now :
@@ -1829,7 +2211,7 @@ Example stale_answer_unknown_now :
   = [OUnit; OSent [SentPending 0 REDIRECT 0]; OBool true; OUnit; OExn KeyErr; OIdentity [2] []].
 Proof. vm_compute. reflexivity. Qed.
 Example wrong_party_outputs_v0_now :
-  map (fun x => snd (fst x)) (run_v0 false true w_front 1000 h_wrong_party)
+  map (fun x => snd (fst x)) (run_v0 false true true w_front 1000 h_wrong_party)
   = [OUnit; OUnit; OSent [SentPending 0 REDIRECT 0; SentPending 1 POST 1]; OSent [SentPending 0 REDIRECT 2]]
   /\ map (fun x => snd (fst x)) (run w_front 1000 h_wrong_party)
   = [OUnit; OUnit; OSent [SentPending 0 REDIRECT 0; SentPending 1 POST 1]; OExn LogoutErr].
@@ -1838,6 +2220,10 @@ Example moot_outputs :
   map (fun x => snd (fst x)) (run w_three 1000 h_moot)
   = [OUnit; OUnit; OUnit; OSent [SentPending 0 REDIRECT 0; SentPending 1 REDIRECT 1; SentPending 2 REDIRECT 2];
      OSent [SentPending 1 REDIRECT 3; SentPending 2 REDIRECT 4]; OSent [SentPending 2 REDIRECT 5]; OExn ValueErr].
+Proof. vm_compute. reflexivity. Qed.
+Example forgotten_outputs :
+  map (fun x => snd (fst x)) (run w_mixed 1000 h_forgotten)
+  = [OUnit; OUnit; OUnit; OUnit; OExn AttrErr; OUnit; OExn LogoutErr; OExn LogoutErr; OIdentity [1; 2; 4] []].
 Proof. vm_compute. reflexivity. Qed.
 
 (* ================================================================ non-vacuity *)
@@ -1858,6 +2244,18 @@ Example flow_outputs :
 Proof. vm_compute. reflexivity. Qed.
 Example flow_spec : spec w_front 1000 (run w_front 1000 h_flow).
 Proof. apply guarded_spec, flow_guard. Qed.
+
+(* a mixed logout: IdP 1 answers over SOAP at once, IdP 0 over the front channel; then the session ends *)
+Definition w_mixed2 : world := {| w_pref := [SOAP; REDIRECT; POST]; w_slo := [[REDIRECT]; [SOAP]] |}.
+Definition h_mixed : list op :=
+  [Login 0 0 2000 1; Login 0 1 2000 2; StartLogout 0 None [SA_none; SA_ok]; GetIdentity 0 [] true;
+   LogoutResponse 0 0 true []; GetIdentity 0 [] true].
+Example mixed_guard : guard w_mixed2 1000 (run w_mixed2 1000 h_mixed).
+Proof. vm_compute. reflexivity. Qed.
+Example mixed_outputs :
+  map (fun x => snd (fst x)) (run w_mixed2 1000 h_mixed)
+  = [OUnit; OUnit; OSent [SentPending 0 REDIRECT 0; SentSoap 1]; OIdentity [1; 2] []; ODone; OIdentity [] []].
+Proof. vm_compute. reflexivity. Qed.
 
 (* the deadline passes while an answer is outstanding: the next answer ends the session at once *)
 Definition h_deadline : list op :=
